@@ -282,7 +282,7 @@ package raft
 //@ ufun st_snapterm(s Storage) uint64
 //@ pred opaque wf_storage(s Storage) := !isnil(s) && st_first(s) >= 1 && st_last(s) + 1 >= st_first(s) && st_last(s) < 4611686018427387904
 //@     && st_snapindex(s) + 1 >= st_first(s)
-//@     && (forall i uint64 :: st_first(s) <= i && i <= st_last(s) ==> allocated(st_ent(s, i)) && eindex(st_ent(s, i)) == i && eterm(st_ent(s, i)) == st_term(s, i))
+//@     && (forall i uint64 :: st_first(s) <= i && i <= st_last(s) ==> st_ent(s, i) != nil && eindex(st_ent(s, i)) == i && eterm(st_ent(s, i)) == st_term(s, i))
 //@     && (forall i uint64, j uint64 :: st_first(s) - 1 <= i && i <= j && j <= st_last(s) ==> st_term(s, i) <= st_term(s, j))
 
 //@ func raft.Storage.FirstIndex
@@ -545,6 +545,7 @@ package raft
 //@        && l.unstable.entries == old(l.unstable.entries) && l.unstable.offset == old(l.unstable.offset) && l.unstable.offsetInProgress == old(l.unstable.offsetInProgress)
 //@   ensures #accept [C03] old(matchesAt(l, a.prev.index, a.prev.term)) ==> ok && lastnewi == a.prev.index + len(a.entries)
 //@   ensures #commit-clamp [C06 C07] ok ==> l.committed == max(old(l.committed), min(committed, lastnewi))
+//@   ensures #lastnew-in-log [C06] ok ==> lastnewi <= log_last(l)
 //@   ensures #commit-monotone [C07 C06] l.committed >= old(l.committed) && l.committed <= log_last(l)
 //@   ensures #matches-leader [C03] ok ==> (forall p int, i int :: a.entries.off <= p && p < a.entries.off + len(a.entries) && i == a.prev.index + 1 + (p - a.entries.off)
 //@        ==> log_has(l, i) && log_term(l, i) == old(eterm(elem(a.entries, p))))
@@ -612,6 +613,7 @@ package raft
 //@   frame raft.raftLog: l
 //@   frame raft.unstable: &l.unstable
 //@   ensures #cursors log_cursors_kept(l) && l.storage == old(l.storage)
+//@   ensures #last-kept [C18] log_last(l) == old(log_last(l))
 //@   ensures #wf wf_raftLog(l)
 
 //@ func raft.raftLog.acceptUnstable [C05]
@@ -650,22 +652,25 @@ package raft
 //@     && msgs_nonnil(r.msgs) && msgs_nonnil(r.msgsAfterAppend) && r.Term < 9223372036854775808
 //@     && (r.msgs.arr != r.msgsAfterAppend.arr || r.msgs.arr == 0) && (r.msgs.arr != r.pendingReadIndexMessages.arr || r.msgs.arr == 0)
 //@     && (r.msgsAfterAppend.arr != r.pendingReadIndexMessages.arr || r.msgsAfterAppend.arr == 0)
-//@     && (r.state == StateLeader ==> r.lead == r.id)
+//@     && (r.state == StateLeader <==> r.lead == r.id) && (r.state == StatePreCandidate ==> r.preVote) && r.leadTransferee != r.id
 
 //@ -- C07: the hard state (Term, Vote, commit) moves forward only: two-state invariant proved for every function that can write it
 //@ pred hs_monotone(r *raft) := r.Term >= old(r.Term) && (r.Term == old(r.Term) ==> (r.Vote == old(r.Vote) || old(r.Vote) == 0))
 //@     && r.raftLog.committed >= old(r.raftLog.committed) && r.raftLog == old(r.raftLog)
+//@     && r.trk.MaxInflight == old(r.trk.MaxInflight) && r.trk.MaxInflightBytes == old(r.trk.MaxInflightBytes)
 
 //@ pred isRespType(t pb.MessageType) := t == pb.MsgAppResp || t == pb.MsgVoteResp || t == pb.MsgPreVoteResp
 //@ pred isVoteType(t pb.MessageType) := t == pb.MsgVote || t == pb.MsgVoteResp || t == pb.MsgPreVote || t == pb.MsgPreVoteResp
 
 //@ func raft.raft.send [C05 C07 C14]
+//@   frame elems *raftpb.Message: r.msgs, r.msgsAfterAppend
 //@   requires #wf wf_raft(r) && m != nil
 //@   requires #term-set [C14] isVoteType(m.GetType()) ==> m.GetTerm() != 0
 //@   requires #term-unset [C14] !isVoteType(m.GetType()) ==> m.GetTerm() == 0
 //@   requires #not-self [C14] !isRespType(m.GetType()) ==> m.GetTo() != r.id
 //@   frame raft.raft: r
 //@   frame raftpb.Message: m
+//@   ensures #reads-kept [C11] old(reads_wf(r)) ==> reads_wf(r)
 //@   ensures #routing-deferred [C05] isRespType(old(m.GetType())) ==> len(r.msgsAfterAppend) == old(len(r.msgsAfterAppend)) + 1
 //@        && r.msgsAfterAppend[old(len(r.msgsAfterAppend))] == m && r.msgs == old(r.msgs)
 //@   ensures #routing-immediate [C05] !isRespType(old(m.GetType())) ==> len(r.msgs) == old(len(r.msgs)) + 1
@@ -674,6 +679,7 @@ package raft
 //@        && (forall i int, q int :: 0 <= i && i < old(len(r.msgsAfterAppend)) && q == old(r.msgsAfterAppend.off) + i ==> elem(r.msgsAfterAppend, r.msgsAfterAppend.off + i) == old(elem(r.msgsAfterAppend, q)))
 //@   ensures #term-stamp [C07] m.GetTerm() == (isVoteType(old(m.GetType())) || old(m.GetType()) == pb.MsgProp || old(m.GetType()) == pb.MsgReadIndex ? old(m.GetTerm()) : r.Term)
 //@   ensures #from m.GetFrom() == (old(m.GetFrom()) == 0 ? r.id : old(m.GetFrom())) && m.GetType() == old(m.GetType()) && m.GetTo() == old(m.GetTo())
+//@   ensures #rest raft_kept_but_msgs(r)
 //@   ensures #wf wf_raft(r) && hs_monotone(r)
 
 //@ -- ------------------------------------------------------------------------------------------
@@ -705,6 +711,8 @@ package raft
 //@        && fresh(ro.unconfirmedReads[old(len(ro.unconfirmedReads))])
 //@   ensures #kept [C11] (forall i int, q int :: 0 <= i && i < old(len(ro.unconfirmedReads)) && q == old(ro.unconfirmedReads.off) + i ==> elem(ro.unconfirmedReads, ro.unconfirmedReads.off + i) == old(elem(ro.unconfirmedReads, q)))
 //@        && ro.confirmedReads == old(ro.confirmedReads) && ro.acks == old(ro.acks) && ro.option == old(ro.option)
+//@   ensures #kept-reqs [C11] forall p int :: {elem(ro.unconfirmedReads, p)} ro.unconfirmedReads.off <= p && p < ro.unconfirmedReads.off + old(len(ro.unconfirmedReads)) ==>
+//@        elem(ro.unconfirmedReads, p) == oldelem(ro.unconfirmedReads, old(ro.unconfirmedReads.off) + (p - ro.unconfirmedReads.off))
 //@   ensures #wf wf_readOnly(ro)
 
 //@ func raft.readOnly.heartbeatCtx [C11]
@@ -766,6 +774,8 @@ package raft
 //@ -- raft.go leaf functions
 
 //@ pred raft_kept_but_msgs(r *raft) := r.Term == old(r.Term) && r.Vote == old(r.Vote) && r.state == old(r.state) && r.lead == old(r.lead) && r.id == old(r.id)
+//@     && r.step == old(r.step) && r.tick == old(r.tick) && r.electionElapsed == old(r.electionElapsed) && r.heartbeatElapsed == old(r.heartbeatElapsed)
+//@     && (r.msgs.arr == old(r.msgs.arr) || fresh(r.msgs.arr)) && (r.msgsAfterAppend.arr == old(r.msgsAfterAppend.arr) || fresh(r.msgsAfterAppend.arr))
 //@     && r.raftLog == old(r.raftLog) && r.readOnly == old(r.readOnly) && r.leadTransferee == old(r.leadTransferee) && r.pendingConfIndex == old(r.pendingConfIndex)
 //@     && r.uncommittedSize == old(r.uncommittedSize) && r.electionElapsed == old(r.electionElapsed) && r.heartbeatElapsed == old(r.heartbeatElapsed)
 //@     && r.isLearner == old(r.isLearner) && r.randomizedElectionTimeout == old(r.randomizedElectionTimeout)
@@ -851,6 +861,7 @@ package raft
 //@   requires wf_raft(r)
 //@   reveal wf_trk
 //@   frame raft.raftLog: r.raftLog
+//@   ensures #reads-kept [C11] old(reads_wf(r)) ==> reads_wf(r)
 //@   ensures #quorum-own-term [C06 C04] result ==> jointCommittedByMatch(&r.trk, r.raftLog.committed) && log_has(r.raftLog, r.raftLog.committed)
 //@        && log_term(r.raftLog, r.raftLog.committed) == r.Term && r.raftLog.committed > old(r.raftLog.committed) && r.Term != 0
 //@   ensures #unchanged [C06] !result ==> r.raftLog.committed == old(r.raftLog.committed)
@@ -858,9 +869,12 @@ package raft
 //@   ensures #wf wf_raft(r) && hs_monotone(r)
 
 //@ func raft.raft.sendHeartbeat [C06 C14]
+//@   frame raftpb.Message:
+//@   frame elems *raftpb.Message: r.msgs, r.msgsAfterAppend
 //@   requires wf_raft(r) && r.state == StateLeader
 //@   requires #peer [C14] has(r.trk.Progress, to) && to != r.id
 //@   reveal wf_trk
+//@   ensures #reads-kept [C11] old(reads_wf(r)) ==> reads_wf(r)
 //@   ensures #commit-clamp [C06] len(r.msgs) == old(len(r.msgs)) + 1 && r.msgs[old(len(r.msgs))].GetType() == pb.MsgHeartbeat && r.msgs[old(len(r.msgs))].GetTo() == to
 //@        && r.msgs[old(len(r.msgs))].GetCommit() == min(old(r.trk.Progress[to].Match), r.raftLog.committed) && r.msgs[old(len(r.msgs))].GetTerm() == r.Term
 //@   ensures #deferred-untouched [C05] r.msgsAfterAppend == old(r.msgsAfterAppend)
@@ -878,26 +892,35 @@ package raft
 
 //@ -- leader-side relation between progress records and the log: nothing is tracked beyond the leader's own log
 //@ pred progress_in_log(r *raft, pr *tracker.Progress) := pr.Match <= log_last(r.raftLog) && pr.Next <= log_last(r.raftLog) + 1 && pr.Next >= 1
+//@     && pr.PendingSnapshot <= log_last(r.raftLog)
 //@ spec lastMsg(r *raft) *pb.Message := r.msgs[len(r.msgs) - 1]
 
 //@ func raft.raft.maybeSendSnapshot [C09 C16 C14]
+//@   frame raftpb.Message:
+//@   frame elems *raftpb.Message: r.msgs, r.msgsAfterAppend
 //@   requires wf_raft(r) && r.state == StateLeader
 //@   requires #peer has(r.trk.Progress, to) && r.trk.Progress[to] == pr && to != r.id
 //@   requires #behind-compaction [C14] pr.Match + 1 < log_first(r.raftLog)
 //@   reveal wf_trk, wf_raftLog
 //@   frame tracker.Progress: pr
 //@   frame tracker.Inflights: pr.Inflights
+//@   ensures #log-cursors-kept [C08] log_cursors_kept(r.raftLog)
+//@   ensures #reads-kept [C11] old(reads_wf(r)) ==> reads_wf(r)
 //@   ensures #inactive-noop [C09] !old(pr.RecentActive) ==> !result && r.msgs == old(r.msgs) && pr.State == old(pr.State) && pr.Next == old(pr.Next) && pr.PendingSnapshot == old(pr.PendingSnapshot)
 //@   ensures #sent [C09 C16] result ==> pr.State == tracker.StateSnapshot && len(r.msgs) == old(len(r.msgs)) + 1 && lastMsg(r).GetType() == pb.MsgSnap && lastMsg(r).GetTo() == to
 //@        && lastMsg(r).Snapshot != nil && pr.PendingSnapshot == snapIndex(lastMsg(r).Snapshot) && pr.Next == pr.PendingSnapshot + 1
 //@        && snapIndex(lastMsg(r).Snapshot) <= r.raftLog.committed && lastMsg(r).GetTerm() == r.Term
-//@   ensures #not-sent !result ==> r.msgs == old(r.msgs) && pr.State == old(pr.State) && pr.Next == old(pr.Next)
+//@   ensures #not-sent !result ==> r.msgs == old(r.msgs) && pr.State == old(pr.State) && pr.Next == old(pr.Next) && pr.PendingSnapshot == old(pr.PendingSnapshot)
+//@   ensures #pending-in-log [C09] result ==> pr.PendingSnapshot <= log_last(r.raftLog)
+//@   ensures #log-kept log_last(r.raftLog) == old(log_last(r.raftLog))
 //@   ensures #match-kept [C06] pr.Match == old(pr.Match)
 //@   ensures #deferred-untouched [C05] r.msgsAfterAppend == old(r.msgsAfterAppend)
 //@   ensures #rest raft_kept_but_msgs(r) && r.raftLog.committed == old(r.raftLog.committed)
 //@   ensures #wf wf_raft(r) && hs_monotone(r)
 
 //@ func raft.raft.maybeSendAppend [C16 C06 C03 C14]
+//@   frame raftpb.Message:
+//@   frame elems *raftpb.Message: r.msgs, r.msgsAfterAppend
 //@   requires wf_raft(r) && r.state == StateLeader
 //@   after raft.raft.send assert #sent-app lastMsg(r).GetType() == pb.MsgApp && lastMsg(r).GetTo() == to && lastMsg(r).GetTerm() == r.Term && len(r.msgs) == old(len(r.msgs)) + 1
 //@   after raft.raft.send assert #sent-idx lastMsg(r).GetIndex() == old(r.trk.Progress[to].Next) - 1
@@ -913,6 +936,8 @@ package raft
 //@   reveal wf_trk, wf_raftLog, wf_unstable, wf_storage
 //@   frame tracker.Progress: r.trk.Progress[to]
 //@   frame tracker.Inflights: r.trk.Progress[to].Inflights
+//@   ensures #log-cursors-kept [C08] log_cursors_kept(r.raftLog)
+//@   ensures #reads-kept [C11] old(reads_wf(r)) ==> reads_wf(r)
 //@   ensures #paused-noop [C16] old(r.trk.Progress[to].State == tracker.StateSnapshot || r.trk.Progress[to].MsgAppFlowPaused) ==> !result && r.msgs == old(r.msgs)
 //@        && r.trk.Progress[to].Next == old(r.trk.Progress[to].Next) && r.trk.Progress[to].State == old(r.trk.Progress[to].State)
 //@   ensures #one-message [C16] len(r.msgs) == old(len(r.msgs)) + (result ? 1 : 0) && (!result ==> r.msgs == old(r.msgs))
@@ -927,12 +952,21 @@ package raft
 //@   ensures #no-entries-when-full [C16] result && lastMsg(r).GetType() == pb.MsgApp && old(r.trk.Progress[to].State == tracker.StateReplicate && fullSpec(r.trk.Progress[to].Inflights)) ==> len(lastMsg(r).Entries) == 0
 //@   ensures #match-kept [C06] r.trk.Progress[to].Match == old(r.trk.Progress[to].Match) && r.trk.Progress == old(r.trk.Progress)
 //@   ensures #deferred-untouched [C05] r.msgsAfterAppend == old(r.msgsAfterAppend)
+//@   ensures #next-in-log [C14] progress_in_log(r, r.trk.Progress[to]) && log_last(r.raftLog) == old(log_last(r.raftLog))
 //@   ensures #rest raft_kept_but_msgs(r) && r.raftLog.committed == old(r.raftLog.committed)
 //@   ensures #wf wf_raft(r) && hs_monotone(r)
 
 //@ func raft.raft.sendAppend [C16]
+//@   frame raftpb.Message:
+//@   frame elems *raftpb.Message: r.msgs, r.msgsAfterAppend
 //@   requires wf_raft(r) && r.state == StateLeader
 //@   requires #peer [C14] has(r.trk.Progress, to) && to != r.id && progress_in_log(r, r.trk.Progress[to])
+//@   reveal wf_trk
+//@   frame tracker.Progress: r.trk.Progress[to]
+//@   frame tracker.Inflights: r.trk.Progress[to].Inflights
+//@   ensures #log-cursors-kept [C08] log_cursors_kept(r.raftLog)
+//@   ensures #reads-kept [C11] old(reads_wf(r)) ==> reads_wf(r)
+//@   ensures #next-in-log [C14] progress_in_log(r, r.trk.Progress[to]) && log_last(r.raftLog) == old(log_last(r.raftLog))
 //@   ensures #at-most-one [C16] len(r.msgs) <= old(len(r.msgs)) + 1 && len(r.msgs) >= old(len(r.msgs))
 //@   ensures #deferred-untouched [C05] r.msgsAfterAppend == old(r.msgsAfterAppend)
 //@   ensures #match-kept [C06] r.trk.Progress[to].Match == old(r.trk.Progress[to].Match) && r.trk.Progress == old(r.trk.Progress)
@@ -941,6 +975,8 @@ package raft
 
 //@ -- the entries raft itself originates: clones of the proposed entries stamped with (Term, last+1+i); payload and type untouched (C20)
 //@ func raft.raft.appendEntry [C20 C03 C05 C16]
+//@   frame elems *raftpb.Message: r.msgs, r.msgsAfterAppend
+//@   frame raftpb.Message:
 //@   requires wf_raft(r) && r.state == StateLeader
 //@   requires #ents forall p int :: es.off <= p && p < es.off + len(es) ==> elem(es, p) != nil
 //@   requires #term-not-behind-log [C03] log_term(r.raftLog, log_last(r.raftLog)) <= r.Term && r.Term >= 1
@@ -949,6 +985,8 @@ package raft
 //@   after raft.raftLog.append assert #h-last result == old(log_last(r.raftLog)) + len(es) && log_last(r.raftLog) == result
 //@   after raft.raftLog.append assert #h-terms forall i int :: old(log_last(r.raftLog)) < i && i <= log_last(r.raftLog) ==> log_term(r.raftLog, i) == r.Term
 //@   after raft.raftLog.append assert #h-prefix forall i int :: i <= old(log_last(r.raftLog)) && old(log_has(r.raftLog, i)) ==> log_has(r.raftLog, i) && log_term(r.raftLog, i) == old(log_term(r.raftLog, i))
+//@   ensures #log-cursors-kept [C08] log_cursors_kept(r.raftLog)
+//@   ensures #reads-kept [C11] old(reads_wf(r)) ==> reads_wf(r)
 //@   ensures #dropped-untouched [C20 C16] !accepted ==> log_last(r.raftLog) == old(log_last(r.raftLog)) && r.msgs == old(r.msgs) && r.msgsAfterAppend == old(r.msgsAfterAppend)
 //@        && r.uncommittedSize == old(r.uncommittedSize) && r.raftLog.unstable.entries == old(r.raftLog.unstable.entries) && r.raftLog.unstable.offset == old(r.raftLog.unstable.offset)
 //@   ensures #appended [C20 C03] accepted ==> log_last(r.raftLog) == old(log_last(r.raftLog)) + len(es)
@@ -987,6 +1025,7 @@ package raft
 //@   visit 1 invariant #learner-kept forall id uint64 :: has(r.trk.Progress, id) ==> r.trk.Progress[id].IsLearner == old(r.trk.Progress[id].IsLearner)
 //@   visit 1 invariant #rest r.Term == term && r.raftLog == old(r.raftLog) && r.trk.Progress == old(r.trk.Progress) && wf_raftLog(r.raftLog) && r.id == old(r.id)
 //@        && r.lead == 0 && r.Vote == (term == old(r.Term) ? old(r.Vote) : 0) && r.trk.MaxInflight == old(r.trk.MaxInflight) && len(r.trk.Votes) == 0 && r.trk.Votes != nil
+//@   ensures #reads-kept [C11] old(reads_wf(r)) ==> reads_wf(r)
 //@   ensures #term-vote [C07 C02] r.Term == term && r.Vote == (term == old(r.Term) ? old(r.Vote) : 0)
 //@   ensures #cleared [C02 C10 C16] r.lead == 0 && r.electionElapsed == 0 && r.heartbeatElapsed == 0 && r.leadTransferee == 0 && r.pendingConfIndex == 0 && r.uncommittedSize == 0
 //@        && len(r.trk.Votes) == 0
@@ -1004,6 +1043,8 @@ package raft
 //@ func raft.raft.becomeFollower [C07 C02 C17]
 //@   requires wf_raft(r)
 //@   requires #term-not-lower [C07] term >= r.Term && term < 9223372036854775808 && r.trk.MaxInflight >= 1
+//@   requires #lead-not-self [C14] lead != r.id
+//@   ensures #reads-kept [C11] old(reads_wf(r)) ==> reads_wf(r)
 //@   ensures #follower [C02] r.state == StateFollower && r.lead == lead && r.Term == term && r.Vote == (term == old(r.Term) ? old(r.Vote) : 0)
 //@   ensures #cleared r.electionElapsed == 0 && r.leadTransferee == 0 && r.pendingConfIndex == 0 && r.uncommittedSize == 0 && len(r.trk.Votes) == 0
 //@   ensures #kept r.id == old(r.id) && r.raftLog == old(r.raftLog) && r.msgs == old(r.msgs) && r.msgsAfterAppend == old(r.msgsAfterAppend)
@@ -1014,6 +1055,7 @@ package raft
 //@   requires wf_raft(r)
 //@   requires #not-leader [C14] r.state != StateLeader
 //@   requires #a-arith r.Term + 1 < 9223372036854775808 && r.trk.MaxInflight >= 1
+//@   ensures #reads-kept [C11] old(reads_wf(r)) ==> reads_wf(r)
 //@   ensures #term-plus-one-vote-self [C02 C07] r.state == StateCandidate && r.Term == old(r.Term) + 1 && r.Vote == r.id && r.lead == 0 && len(r.trk.Votes) == 0
 //@   ensures #kept r.id == old(r.id) && r.raftLog == old(r.raftLog) && r.msgs == old(r.msgs) && r.msgsAfterAppend == old(r.msgsAfterAppend)
 //@        && r.raftLog.committed == old(r.raftLog.committed) && r.trk.Progress == old(r.trk.Progress) && log_last(r.raftLog) == old(log_last(r.raftLog))
@@ -1021,8 +1063,10 @@ package raft
 
 //@ func raft.raft.becomePreCandidate [C17 C07 C14]
 //@   requires wf_raft(r)
+//@   requires #prevote-enabled [C17] r.preVote
 //@   requires #not-leader [C14] r.state != StateLeader
 //@   reveal wf_trk, trk_distinct
+//@   ensures #reads-kept [C11] old(reads_wf(r)) ==> reads_wf(r)
 //@   ensures #term-vote-unchanged [C17 C07] r.state == StatePreCandidate && r.Term == old(r.Term) && r.Vote == old(r.Vote) && r.lead == 0 && len(r.trk.Votes) == 0
 //@   ensures #kept r.id == old(r.id) && r.raftLog == old(r.raftLog) && r.msgs == old(r.msgs) && r.msgsAfterAppend == old(r.msgsAfterAppend)
 //@        && r.raftLog.committed == old(r.raftLog.committed) && r.trk.Progress == old(r.trk.Progress)
@@ -1033,9 +1077,12 @@ package raft
 //@   requires wf_raft(r)
 //@   requires #not-follower [C14] r.state != StateFollower
 //@   requires #member [C14] has(r.trk.Progress, r.id)
+//@   -- the legitimate-transition precondition (C02): a node turns leader only on a vote tally that is Won for its configuration
+//@   requires #won [C02] jointVoteSpec(r.trk.Voters, r.trk.Votes) == quorum.VoteWon
 //@   requires #term-not-behind-log [C03] log_term(r.raftLog, log_last(r.raftLog)) <= r.Term && r.Term >= 1
 //@   requires #a-arith log_last(r.raftLog) + 1 < 4611686018427387904 && r.trk.MaxInflight >= 1
 //@   reveal wf_trk, trk_distinct
+//@   ensures #reads-kept [C11] old(reads_wf(r)) ==> reads_wf(r)
 //@   ensures #leader [C02] r.state == StateLeader && r.lead == r.id && r.Term == old(r.Term) && r.Vote == old(r.Vote)
 //@   ensures #noop-entry [C04 C20] log_last(r.raftLog) == old(log_last(r.raftLog)) + 1 && log_term(r.raftLog, log_last(r.raftLog)) == r.Term
 //@   ensures #pending-conf [C10] r.pendingConfIndex == old(log_last(r.raftLog))
@@ -1045,4 +1092,656 @@ package raft
 //@   ensures #peers-reset [C04 C06] forall id uint64 :: has(r.trk.Progress, id) && id != r.id ==> r.trk.Progress[id].Match == 0 && r.trk.Progress[id].Next == old(log_last(r.raftLog)) + 1
 //@   ensures #committed-prefix-stable [C01] forall i int :: i <= old(log_last(r.raftLog)) && old(log_has(r.raftLog, i)) ==> log_has(r.raftLog, i) && log_term(r.raftLog, i) == old(log_term(r.raftLog, i))
 //@   ensures #kept r.id == old(r.id) && r.raftLog == old(r.raftLog) && r.raftLog.committed == old(r.raftLog.committed) && r.trk.Progress == old(r.trk.Progress)
+//@   ensures #progress-in-log [C06 C14] forall id uint64 :: has(r.trk.Progress, id) ==> progress_in_log(r, r.trk.Progress[id])
 //@   ensures #wf wf_raft(r) && hs_monotone(r) && typestate(r)
+
+//@ -- ------------------------------------------------------------------------------------------
+//@ -- raft.go: elections
+
+//@ func raft.raft.poll [C02]
+//@   requires wf_raft(r)
+//@   reveal wf_trk
+//@   ensures #reads-kept [C11] old(reads_wf(r)) ==> reads_wf(r)
+//@   ensures #first-wins [C02] (old(has(r.trk.Votes, id)) ==> r.trk.Votes[id] == old(r.trk.Votes[id])) && (!old(has(r.trk.Votes, id)) ==> r.trk.Votes[id] == v) && has(r.trk.Votes, id)
+//@   ensures #others-kept [C02] forall k uint64 :: k != id ==> has(r.trk.Votes, k) == old(has(r.trk.Votes, k)) && r.trk.Votes[k] == old(r.trk.Votes[k])
+//@   ensures #tally [C02 C12] result == jointVoteSpec(r.trk.Voters, r.trk.Votes)
+//@   ensures #rest raft_kept_but_msgs(r) && r.msgs == old(r.msgs) && r.msgsAfterAppend == old(r.msgsAfterAppend) && r.raftLog.committed == old(r.raftLog.committed)
+//@        && r.trk.Progress == old(r.trk.Progress) && r.trk.Votes == old(r.trk.Votes)
+//@   ensures #wf wf_raft(r) && hs_monotone(r)
+
+//@ -- "a committed configuration change has not been applied yet": TODO verify the body (scan with a callback); until then the
+//@ -- intended result is an assumed contract (listed in the evidence)
+//@ ufun confChangeIn(l *raftLog, lo uint64, hi uint64) bool
+//@ func raft.raft.hasUnappliedConfChanges [C10]
+//@   trusted
+//@   pure
+//@   requires wf_raft(r)
+//@   ensures result == (r.raftLog.applied < r.raftLog.committed && confChangeIn(r.raftLog, r.raftLog.applied + 1, r.raftLog.committed + 1))
+
+//@ func raft.raft.campaign [C02 C17 C05 C19]
+//@   requires wf_raft(r)
+//@   requires #not-leader [C14] r.state != StateLeader
+//@   requires #prevote-enabled [C17] t == campaignPreElection ==> r.preVote
+//@   -- the legitimate-transition precondition (C17): a pre-candidate starts the real election only on a pre-vote tally that is Won
+//@   requires #prevote-won [C17] t != campaignPreElection && r.state == StatePreCandidate ==> jointVoteSpec(r.trk.Voters, r.trk.Votes) == quorum.VoteWon
+//@   requires #a-arith r.Term + 1 < 9223372036854775808 && r.trk.MaxInflight >= 1
+//@   reveal wf_raftLog, wf_unstable, wf_storage
+//@   ensures #reads-kept [C11] old(reads_wf(r)) ==> reads_wf(r)
+//@   ensures #pre-election [C17] t == campaignPreElection ==> r.state == StatePreCandidate && r.Term == old(r.Term) && r.Vote == old(r.Vote)
+//@   ensures #election [C02 C07] t != campaignPreElection ==> r.state == StateCandidate && r.Term == old(r.Term) + 1 && r.Vote == r.id
+//@   ensures #votes-empty [C02 C05] len(r.trk.Votes) == 0
+//@   ensures #kept r.id == old(r.id) && r.raftLog == old(r.raftLog) && r.raftLog.committed == old(r.raftLog.committed) && r.trk.Progress == old(r.trk.Progress)
+//@        && log_last(r.raftLog) == old(log_last(r.raftLog))
+//@   ensures #wf wf_raft(r) && hs_monotone(r) && typestate(r)
+//@   loop 1 invariant #ids len(ids) == iter && ids != nil
+//@   loop 2 invariant #reads old(reads_wf(r)) ==> reads_wf(r)
+//@   loop 2 invariant #state 0 <= iter && iter <= len(ids) && wf_raft(r) && typestate(r) && r.Term == (t == campaignPreElection ? old(r.Term) : old(r.Term) + 1) && r.Vote == (t == campaignPreElection ? old(r.Vote) : r.id)
+//@        && r.state == (t == campaignPreElection ? StatePreCandidate : StateCandidate) && len(r.trk.Votes) == 0 && r.id == old(r.id) && r.raftLog == old(r.raftLog)
+//@        && r.raftLog.committed == old(r.raftLog.committed) && r.trk.Progress == old(r.trk.Progress) && log_last(r.raftLog) == old(log_last(r.raftLog)) && term >= 1
+
+//@ -- ------------------------------------------------------------------------------------------
+//@ -- raft.go: follower-side handlers. Every reply that reports a log position is a response type and is therefore
+//@ -- routed to msgsAfterAppend (C05: durable before visible); the position reported is exactly what the local log holds (C06/C03).
+
+//@ spec lastDeferred(r *raft) *pb.Message := r.msgsAfterAppend[len(r.msgsAfterAppend) - 1]
+//@ pred one_deferred_reply(r *raft, to uint64, t pb.MessageType) := len(r.msgsAfterAppend) == old(len(r.msgsAfterAppend)) + 1 && r.msgs == old(r.msgs)
+//@     && lastDeferred(r).GetType() == t && lastDeferred(r).GetTo() == to && lastDeferred(r).GetTerm() == r.Term && lastDeferred(r).GetFrom() == r.id
+
+//@ func raft.raft.handleHeartbeat [C06 C05 C07 C14]
+//@   requires wf_raft(r) && m != nil
+//@   requires #not-self [C14] m.GetFrom() != r.id
+//@   -- E-msg-wf: a leader never advertises a commit index above what it knows the follower holds (sendHeartbeat#post:commit-clamp)
+//@   requires #commit-in-log [C14 C06] m.GetCommit() <= log_last(r.raftLog)
+//@   ensures #reads-kept [C11] old(reads_wf(r)) ==> reads_wf(r)
+//@   ensures #commit-max [C06 C07] r.raftLog.committed == max(old(r.raftLog.committed), old(m.GetCommit()))
+//@   ensures #reply [C05] len(r.msgs) == old(len(r.msgs)) + 1 && r.msgsAfterAppend == old(r.msgsAfterAppend)
+//@        && r.msgs[old(len(r.msgs))].GetType() == pb.MsgHeartbeatResp && r.msgs[old(len(r.msgs))].GetTo() == old(m.GetFrom())
+//@   ensures #rest raft_kept_but_msgs(r) && log_last(r.raftLog) == old(log_last(r.raftLog))
+//@   ensures #wf wf_raft(r) && hs_monotone(r)
+
+//@ spec msgSlice(m *pb.Message) logSlice := logSliceFromMsgApp(m)
+
+//@ func raft.logSliceFromMsgApp
+//@   inline
+
+//@ func raft.raft.handleAppendEntries [C03 C05 C06 C07 C01 C14]
+//@   requires wf_raft(r) && m != nil
+//@   requires #not-self [C14] m.GetFrom() != r.id
+//@   -- E-msg-wf: the entries of a MsgApp are contiguous from Index+1 with non-decreasing terms (maybeSendAppend#post)
+//@   requires #valid [C14 C03] entriesFrom(m.Entries, m.GetIndex() + 1) && termsMonotone(m.Entries)
+//@        && (len(m.Entries) > 0 ==> m.GetLogTerm() <= eterm(m.Entries[0])) && m.GetIndex() + len(m.Entries) < 4611686018427387904
+//@   -- E-leader-complete (DESIGN §3.4): an append accepted at the current term never conflicts with the committed prefix
+//@   requires #no-committed-conflict [C14] matchesAt(r.raftLog, m.GetIndex(), m.GetLogTerm()) ==> (forall p int :: m.Entries.off <= p && p < m.Entries.off + len(m.Entries)
+//@        && eindex(elem(m.Entries, p)) <= r.raftLog.committed ==> matchesAt(r.raftLog, eindex(elem(m.Entries, p)), eterm(elem(m.Entries, p))))
+//@   reveal wf_raftLog
+//@   ensures #reads-kept [C11] old(reads_wf(r)) ==> reads_wf(r)
+//@   ensures #one-deferred-reply [C05] one_deferred_reply(r, old(m.GetFrom()), pb.MsgAppResp)
+//@   ensures #stale-below-commit [C06 C03] old(m.GetIndex() < r.raftLog.committed) ==> !lastDeferred(r).GetReject() && lastDeferred(r).GetIndex() == r.raftLog.committed
+//@        && r.raftLog.committed == old(r.raftLog.committed) && log_last(r.raftLog) == old(log_last(r.raftLog))
+//@        && r.raftLog.unstable.entries == old(r.raftLog.unstable.entries) && r.raftLog.unstable.offset == old(r.raftLog.unstable.offset)
+//@   ensures #accept-ack [C03 C06] old(m.GetIndex() >= r.raftLog.committed && matchesAt(r.raftLog, m.GetIndex(), m.GetLogTerm())) ==> !lastDeferred(r).GetReject()
+//@        && lastDeferred(r).GetIndex() == old(m.GetIndex() + len(m.Entries))
+//@   ensures #accept-commit [C06 C07] old(m.GetIndex() >= r.raftLog.committed && matchesAt(r.raftLog, m.GetIndex(), m.GetLogTerm())) ==>
+//@        r.raftLog.committed == max(old(r.raftLog.committed), min(old(m.GetCommit()), old(m.GetIndex() + len(m.Entries))))
+//@   ensures #accept-entries [C03] old(m.GetIndex() >= r.raftLog.committed && matchesAt(r.raftLog, m.GetIndex(), m.GetLogTerm())) ==>
+//@        (forall p int, i int :: m.Entries.off <= p && p < m.Entries.off + len(m.Entries) && i == old(m.GetIndex()) + 1 + (p - m.Entries.off)
+//@            ==> log_has(r.raftLog, i) && log_term(r.raftLog, i) == old(eterm(elem(m.Entries, p))))
+//@   ensures #reject [C03] old(m.GetIndex() >= r.raftLog.committed && !matchesAt(r.raftLog, m.GetIndex(), m.GetLogTerm())) ==> lastDeferred(r).GetReject()
+//@        && lastDeferred(r).GetIndex() == old(m.GetIndex()) && lastDeferred(r).GetRejectHint() <= old(m.GetIndex())
+//@        && r.raftLog.committed == old(r.raftLog.committed) && log_last(r.raftLog) == old(log_last(r.raftLog))
+//@        && r.raftLog.unstable.entries == old(r.raftLog.unstable.entries) && r.raftLog.unstable.offset == old(r.raftLog.unstable.offset)
+//@   ensures #ack-within-log [C06 C05] !lastDeferred(r).GetReject() ==> lastDeferred(r).GetIndex() <= log_last(r.raftLog)
+//@   ensures #committed-prefix-stable [C01 C03] forall i int :: i <= old(r.raftLog.committed) && old(log_has(r.raftLog, i)) ==> log_has(r.raftLog, i) && log_term(r.raftLog, i) == old(log_term(r.raftLog, i))
+//@   ensures #rest raft_kept_but_msgs(r) && r.raftLog.applied == old(r.raftLog.applied) && r.raftLog.applying == old(r.raftLog.applying)
+//@   ensures #wf wf_raft(r) && hs_monotone(r)
+
+//@ -- ------------------------------------------------------------------------------------------
+//@ -- raft.go: snapshot install (C09) and configuration switch
+
+//@ pred inIDs(s []uint64, id uint64) := exists p int :: s.off <= p && p < s.off + len(s) && elem(s, p) == id
+//@ pred progressMap_wf(trk tracker.ProgressMap) := trk != nil && (forall id uint64 :: has(trk, id) ==> wf_progress(trk[id]))
+//@     && (forall a uint64, b uint64 :: {has(trk, a), has(trk, b)} has(trk, a) && has(trk, b) && a != b ==> trk[a] != trk[b])
+
+//@ -- ASSUMED until the confchange package is under contract (listed in the evidence): Restore on an empty tracker returns
+//@ -- a well-formed progress map of fresh records, and touches nothing the caller can see.
+//@ -- E-snapshot-conf-valid: the ConfState carried by a snapshot was produced by this library from a valid configuration
+//@ ufun confStateOK(cs *pb.ConfState) bool
+//@ func confchange.Restore [C13]
+//@   trusted
+//@   requires #empty-tracker [C13 C09] len(chg.Tracker.Progress) == 0 && len(chg.Tracker.Voters[0]) == 0 && len(chg.Tracker.Voters[1]) == 0
+//@        && len(chg.Tracker.Learners) == 0 && len(chg.Tracker.LearnersNext) == 0 && !chg.Tracker.AutoLeave
+//@   requires #max-inflight chg.Tracker.MaxInflight >= 1
+//@   requires cs != nil
+//@   ensures #valid-never-fails [C14] confStateOK(cs) ==> result2 == nil
+//@   ensures result2 == nil ==> progressMap_wf(result1) && (forall id uint64 :: has(result1, id) ==> fresh(result1[id]) && fresh(result1[id].Inflights)
+//@        && result1[id].Match == 0 && result1[id].Next == max(chg.LastIndex, 1) + 0 && result1[id].Inflights.size == chg.Tracker.MaxInflight
+//@        && result1[id].Inflights.maxBytes == chg.Tracker.MaxInflightBytes)
+
+//@ -- ASSUMED: the ConfState derived from the restored configuration is equivalent to the snapshot's (round trip, C13); a
+//@ -- mismatch panics. The round trip itself is outside the contracts built so far.
+//@ func raft.assertConfStatesEquivalent [C14]
+//@   trusted
+
+//@ -- switchToConfig installs (cfg, trk); on a non-leader nothing else changes. TODO verify the body (leader part: maybeCommit, bcastAppend, Visit).
+//@ func raft.raft.switchToConfig [C10 C13]
+//@   trusted
+//@   requires #wf wf_raft(r)
+//@   requires #trk-wf progressMap_wf(trk)
+//@   ensures #reads-kept [C11] old(reads_wf(r)) ==> reads_wf(r)
+//@   ensures #installed [C10] r.trk.Progress == trk && r.trk.Voters[0] == cfg.Voters[0] && r.trk.Voters[1] == cfg.Voters[1] && r.trk.Learners == cfg.Learners
+//@        && r.trk.LearnersNext == cfg.LearnersNext && r.trk.AutoLeave == cfg.AutoLeave && r.isLearner == (has(trk, r.id) && trk[r.id].IsLearner)
+//@   ensures #non-leader-rest old(r.state) != StateLeader ==> raft_kept_but_msgs(r) && r.msgs == old(r.msgs) && r.msgsAfterAppend == old(r.msgsAfterAppend)
+//@        && r.raftLog.committed == old(r.raftLog.committed) && log_last(r.raftLog) == old(log_last(r.raftLog))
+//@   ensures #kept r.trk.MaxInflight == old(r.trk.MaxInflight) && r.trk.MaxInflightBytes == old(r.trk.MaxInflightBytes) && r.trk.Votes == old(r.trk.Votes) && r.raftLog == old(r.raftLog)
+//@   ensures #wf wf_raft(r) && hs_monotone(r) && result != nil
+
+//@ func raftpb.EnsureConfState
+//@   inline
+
+//@ func raft.raft.restore [C09 C07 C13 C16 C14]
+//@   requires wf_raft(r) && s != nil
+//@   requires #a-arith snapIndex(s) < 4611686018427387904 && r.Term + 1 < 9223372036854775808 && r.trk.MaxInflight >= 1
+//@   requires #valid-confstate [C14] s.Metadata != nil && s.Metadata.ConfState != nil ==> confStateOK(s.Metadata.ConfState)
+//@   reveal wf_raftLog, wf_trk, trk_distinct
+//@   ensures #reads-kept [C11] old(reads_wf(r)) ==> reads_wf(r)
+//@   ensures #obsolete-ignored [C09 C07] old(snapIndex(s) <= r.raftLog.committed) ==> !result && raft_kept_but_msgs(r) && log_cursors_kept(r.raftLog)
+//@        && r.raftLog.unstable.snapshot == old(r.raftLog.unstable.snapshot) && r.raftLog.unstable.entries == old(r.raftLog.unstable.entries)
+//@        && r.raftLog.unstable.offset == old(r.raftLog.unstable.offset) && r.trk.Progress == old(r.trk.Progress)
+//@   ensures #fast-forward [C09 C03] !result && old(snapIndex(s) > r.raftLog.committed && r.state == StateFollower) ==>
+//@        r.raftLog.unstable.snapshot == old(r.raftLog.unstable.snapshot) && r.raftLog.unstable.entries == old(r.raftLog.unstable.entries)
+//@        && r.raftLog.unstable.offset == old(r.raftLog.unstable.offset) && r.trk.Progress == old(r.trk.Progress)
+//@        && (r.raftLog.committed == old(r.raftLog.committed) || (r.raftLog.committed == old(snapIndex(s)) && old(matchesAt(r.raftLog, snapIndex(s), snapTerm(s)))))
+//@   ensures #installed [C09] result ==> old(snapIndex(s) > r.raftLog.committed && r.state == StateFollower && !matchesAt(r.raftLog, snapIndex(s), snapTerm(s)))
+//@        && r.raftLog.committed == old(snapIndex(s)) && log_last(r.raftLog) == old(snapIndex(s)) && log_first(r.raftLog) == old(snapIndex(s)) + 1
+//@        && r.raftLog.unstable.snapshot != nil && snapIndex(r.raftLog.unstable.snapshot) == old(snapIndex(s)) && snapTerm(r.raftLog.unstable.snapshot) == old(snapTerm(s))
+//@   ensures #member-only [C09 C13] result ==> old(s.Metadata != nil && s.Metadata.ConfState != nil) && (inIDs(old(s.Metadata.ConfState.Voters), r.id)
+//@        || inIDs(old(s.Metadata.ConfState.Learners), r.id) || inIDs(old(s.Metadata.ConfState.VotersOutgoing), r.id))
+//@   ensures #limits-kept [C16] r.trk.MaxInflight == old(r.trk.MaxInflight) && r.trk.MaxInflightBytes == old(r.trk.MaxInflightBytes)
+//@   ensures #cursors-kept [C08] r.raftLog.applied == old(r.raftLog.applied) && r.raftLog.applying == old(r.raftLog.applying)
+//@   ensures #follower-kept old(r.state) == StateFollower ==> raft_kept_but_msgs(r) && r.msgs == old(r.msgs) && r.msgsAfterAppend == old(r.msgsAfterAppend)
+//@   ensures #wf wf_raft(r) && hs_monotone(r)
+//@   loop 1 invariant #not-found !found && 0 <= iter && iter <= 3
+//@   loop 2 invariant #not-found !found && 0 <= iter && iter <= len(set)
+
+//@ -- E-msg-wf: a MsgSnap carries a fully populated snapshot (what raftLog.snapshot()/Storage.Snapshot() hand out); the
+//@ -- Ensure* helpers are then no-ops. The nil-tolerant paths of those helpers are not covered by the proof.
+//@ pred snap_populated(s *pb.Snapshot) := s != nil && s.Metadata != nil && s.Metadata.Index != nil && s.Metadata.Term != nil && s.Metadata.ConfState != nil
+//@     && s.Metadata.ConfState.AutoLeave != nil
+//@ func raftpb.EnsureSnapshot
+//@   inline
+//@ func raftpb.EnsureSnapshotMetadata
+//@   inline
+
+//@ -- the reply to a MsgSnap acknowledges exactly the commit index: after an install commit == last == snapshot index; an
+//@ -- ignored snapshot must not acknowledge anything beyond what is known committed (the leader takes the index as a match)
+//@ func raft.raft.handleSnapshot [C09 C06 C05 C07 C14]
+//@   requires wf_raft(r) && m != nil
+//@   requires #not-self [C14] m.GetFrom() != r.id
+//@   requires #a-arith snapIndex(m.Snapshot) < 4611686018427387904 && r.Term + 1 < 9223372036854775808 && r.trk.MaxInflight >= 1
+//@   requires #snap-wf [C14] snap_populated(m.Snapshot) && confStateOK(m.Snapshot.Metadata.ConfState)
+//@   reveal wf_raftLog
+//@   ensures #reads-kept [C11] old(reads_wf(r)) ==> reads_wf(r)
+//@   ensures #one-deferred-reply [C05] len(r.msgsAfterAppend) == old(len(r.msgsAfterAppend)) + 1 && r.msgs == old(r.msgs)
+//@        && lastDeferred(r).GetType() == pb.MsgAppResp && lastDeferred(r).GetTo() == old(m.GetFrom()) && !lastDeferred(r).GetReject()
+//@   ensures #ack-is-commit [C06 C09] lastDeferred(r).GetIndex() == r.raftLog.committed && r.raftLog.committed <= log_last(r.raftLog)
+//@   ensures #commit-monotone [C07 C09] r.raftLog.committed >= old(r.raftLog.committed)
+//@   ensures #follower-kept [C07] old(r.state) == StateFollower ==> raft_kept_but_msgs(r)
+//@   ensures #never-below-snapshot [C09] old(r.state) == StateFollower ==> r.raftLog.committed == old(r.raftLog.committed) || r.raftLog.committed == old(snapIndex(m.Snapshot))
+//@   ensures #wf wf_raft(r) && hs_monotone(r)
+
+//@ -- ------------------------------------------------------------------------------------------
+//@ -- raft.go: campaigning is gated (C10: not while a committed configuration change is unapplied; C17: only promotable non-leaders)
+
+//@ pred node_unchanged(r *raft) := raft_kept_but_msgs(r) && r.msgs == old(r.msgs) && r.msgsAfterAppend == old(r.msgsAfterAppend) && log_cursors_kept(r.raftLog) && r.uncommittedSize == old(r.uncommittedSize)
+//@     && log_last(r.raftLog) == old(log_last(r.raftLog))
+//@     && r.trk.Progress == old(r.trk.Progress) && r.trk.Votes == old(r.trk.Votes) && r.electionElapsed == old(r.electionElapsed)
+
+//@ func raft.raft.hup [C10 C17 C02 C07]
+//@   requires wf_raft(r)
+//@   requires #prevote-not-skipped [C17] (t == campaignPreElection ==> r.preVote) && (r.state == StatePreCandidate ==> t == campaignPreElection)
+//@   requires #a-arith r.Term + 1 < 9223372036854775808 && r.trk.MaxInflight >= 1
+//@   ensures #reads-kept [C11] old(reads_wf(r)) ==> reads_wf(r)
+//@   ensures #leader-ignores [C02] old(r.state) == StateLeader ==> node_unchanged(r) && (old(wf_leader(r)) ==> wf_leader(r))
+//@   ensures #unpromotable-ignored [C17 C10] old(!r.promotable()) ==> node_unchanged(r)
+//@   ensures #conf-gate [C10] old(r.raftLog.applied < r.raftLog.committed && confChangeIn(r.raftLog, r.raftLog.applied + 1, r.raftLog.committed + 1)) ==> node_unchanged(r)
+//@   ensures #campaigns [C02 C17] r.Term != old(r.Term) || r.state != old(r.state) ==> old(r.state != StateLeader && r.promotable())
+//@        && (t == campaignPreElection ? r.state == StatePreCandidate && r.Term == old(r.Term) && r.Vote == old(r.Vote) : r.state == StateCandidate && r.Term == old(r.Term) + 1 && r.Vote == r.id)
+//@   ensures #kept r.id == old(r.id) && r.raftLog == old(r.raftLog) && r.raftLog.committed == old(r.raftLog.committed) && r.trk.Progress == old(r.trk.Progress)
+//@        && log_last(r.raftLog) == old(log_last(r.raftLog))
+//@   ensures #typestate old(typestate(r)) ==> typestate(r)
+//@   ensures #wf wf_raft(r) && hs_monotone(r)
+
+//@ -- ------------------------------------------------------------------------------------------
+//@ -- raft.go: the per-role step functions. E-msg-wf (DESIGN §3.4) in predicate form: what this library's own senders guarantee
+//@ -- about the messages a node is stepped with (each conjunct is a postcondition of the corresponding sender).
+
+//@ pred app_wf(r *raft, m *pb.Message) := m.GetFrom() != r.id && entriesFrom(m.Entries, m.GetIndex() + 1) && termsMonotone(m.Entries)
+//@     && (len(m.Entries) > 0 ==> m.GetLogTerm() <= eterm(m.Entries[0])) && m.GetIndex() + len(m.Entries) < 4611686018427387904
+//@     && (matchesAt(r.raftLog, m.GetIndex(), m.GetLogTerm()) ==> (forall p int :: m.Entries.off <= p && p < m.Entries.off + len(m.Entries)
+//@        && eindex(elem(m.Entries, p)) <= r.raftLog.committed ==> matchesAt(r.raftLog, eindex(elem(m.Entries, p)), eterm(elem(m.Entries, p)))))
+//@ pred hb_wf(r *raft, m *pb.Message) := m.GetFrom() != r.id && m.GetCommit() <= log_last(r.raftLog)
+//@ pred snap_wf(r *raft, m *pb.Message) := m.GetFrom() != r.id && snapIndex(m.Snapshot) < 4611686018427387904 && snap_populated(m.Snapshot) && confStateOK(m.Snapshot.Metadata.ConfState)
+//@ pred fwd_type(t pb.MessageType) := t == pb.MsgProp || t == pb.MsgTransferLeader || t == pb.MsgReadIndex
+//@ pred leader_msg_wf(r *raft, m *pb.Message) := (m.GetType() == pb.MsgApp ==> app_wf(r, m)) && (m.GetType() == pb.MsgHeartbeat ==> hb_wf(r, m))
+//@     && (m.GetType() == pb.MsgSnap ==> snap_wf(r, m))
+
+//@ func raft.stepFollower [C20 C17 C11 C05 C07 C14 C03 C06 C09]
+//@   requires wf_raft(r) && typestate(r) && m != nil
+//@   requires #role r.state == StateFollower
+//@   requires #a-arith r.Term + 1 < 9223372036854775808 && r.trk.MaxInflight >= 1
+//@   requires #leader-msg-wf [C14] leader_msg_wf(r, m)
+//@   -- a forwarded local message carries no term (a follower never receives one that another node already stamped: election safety)
+//@   requires #forward-term-unset [C14] fwd_type(m.GetType()) && r.lead != 0 ==> m.GetTerm() == 0
+//@   reveal wf_readOnly
+//@   ensures #reads-kept [C11] old(reads_wf(r)) ==> reads_wf(r)
+//@   ensures #prop-dropped [C20] old(m.GetType() == pb.MsgProp && (r.lead == 0 || r.disableProposalForwarding)) ==> result == ErrProposalDropped && node_unchanged(r)
+//@   ensures #prop-forwarded [C20] old(m.GetType() == pb.MsgProp && r.lead != 0 && !r.disableProposalForwarding) ==> result == nil && len(r.msgs) == old(len(r.msgs)) + 1
+//@        && r.msgs[old(len(r.msgs))] == m && m.GetTo() == r.lead && m.GetType() == pb.MsgProp && m.Entries == old(m.Entries) && r.msgsAfterAppend == old(r.msgsAfterAppend)
+//@        && log_cursors_kept(r.raftLog) && log_last(r.raftLog) == old(log_last(r.raftLog)) && r.uncommittedSize == old(r.uncommittedSize)
+//@   ensures #leader-contact [C17] old(m.GetType() == pb.MsgApp || m.GetType() == pb.MsgHeartbeat || m.GetType() == pb.MsgSnap) ==> r.electionElapsed == 0 && r.lead == old(m.GetFrom())
+//@   ensures #term-vote-kept [C07 C17] old(m.GetType()) != pb.MsgTimeoutNow ==> r.Term == old(r.Term) && r.Vote == old(r.Vote) && r.state == StateFollower
+//@   ensures #never-leader [C02] r.state != StateLeader
+//@   ensures #timeout-now [C17] old(m.GetType()) == pb.MsgTimeoutNow && r.Term != old(r.Term) ==> r.state == StateCandidate && r.Term == old(r.Term) + 1 && r.Vote == r.id
+//@   ensures #forget-leader [C17] old(m.GetType()) == pb.MsgForgetLeader ==> r.lead == (old(r.readOnly.option) == ReadOnlyLeaseBased ? old(r.lead) : 0)
+//@   ensures #read-index-resp [C11] old(m.GetType() == pb.MsgReadIndexResp && len(m.Entries) == 1) ==> len(r.readStates) == old(len(r.readStates)) + 1
+//@        && r.readStates[old(len(r.readStates))].Index == old(m.GetIndex())
+//@   ensures #replies-deferred [C05] old(m.GetType() == pb.MsgApp || m.GetType() == pb.MsgSnap) ==> r.msgs == old(r.msgs) && len(r.msgsAfterAppend) == old(len(r.msgsAfterAppend)) + 1
+//@   ensures #commit-monotone [C07] r.raftLog.committed >= old(r.raftLog.committed)
+//@   ensures #wf wf_raft(r) && hs_monotone(r) && typestate(r)
+
+//@ -- leader-side replication invariant: every follower cursor lies within the leader's log
+//@ pred wf_leader(r *raft) := forall id uint64 :: has(r.trk.Progress, id) ==> progress_in_log(r, r.trk.Progress[id])
+//@ pred matches_kept(r *raft) := r.trk.Progress == old(r.trk.Progress) && (forall id uint64 :: has(r.trk.Progress, id) ==> r.trk.Progress[id].Match == old(r.trk.Progress[id].Match))
+
+//@ func raft.raft.bcastAppend [C16 C05 C06 C19]
+//@   frame raftpb.Message:
+//@   frame elems *raftpb.Message: r.msgs, r.msgsAfterAppend
+//@   requires wf_raft(r) && r.state == StateLeader
+//@   requires #progress-in-log [C14] wf_leader(r)
+//@   reveal trk_distinct, wf_trk
+//@   visit 1 invariant #state wf_raft(r) && raft_kept_but_msgs(r) && r.msgsAfterAppend == old(r.msgsAfterAppend) && r.raftLog.committed == old(r.raftLog.committed)
+//@        && len(r.msgs) >= old(len(r.msgs)) && log_last(r.raftLog) == old(log_last(r.raftLog))
+//@   visit 1 invariant #in-log wf_leader(r)
+//@   visit 1 invariant #cursors log_cursors_kept(r.raftLog)
+//@   visit 1 invariant #outbox-frame frameexcept("E$*raftpb.Message", old(r.msgs), old(r.msgsAfterAppend)) && frameexcept("F$raftpb.Message")
+//@   visit 1 invariant #matches matches_kept(r)
+//@   ensures #log-cursors-kept [C08] log_cursors_kept(r.raftLog)
+//@   ensures #reads-kept [C11] old(reads_wf(r)) ==> reads_wf(r)
+//@   ensures #deferred-untouched [C05] r.msgsAfterAppend == old(r.msgsAfterAppend) && len(r.msgs) >= old(len(r.msgs))
+//@   ensures #match-kept [C06] matches_kept(r)
+//@   ensures #rest raft_kept_but_msgs(r) && r.raftLog.committed == old(r.raftLog.committed) && log_last(r.raftLog) == old(log_last(r.raftLog))
+//@   ensures #wf wf_raft(r) && wf_leader(r) && hs_monotone(r)
+
+//@ pred term_ge_log(r *raft) := log_term(r.raftLog, log_last(r.raftLog)) <= r.Term
+//@ pred candidate_member(r *raft) := r.state == StateCandidate || r.state == StatePreCandidate ==> has(r.trk.Progress, r.id) && r.Term + 1 < 9223372036854775808
+
+//@ func raft.stepCandidate [C02 C17 C20 C04 C07 C05 C14]
+//@   requires wf_raft(r) && typestate(r) && m != nil
+//@   requires #role r.state == StateCandidate || r.state == StatePreCandidate
+//@   requires #a-arith r.Term + 1 < 9223372036854775808 && r.trk.MaxInflight >= 1 && log_last(r.raftLog) + 1 < 4611686018427387904
+//@   requires #leader-msg-wf [C14] leader_msg_wf(r, m)
+//@   -- a message from the leader of this term reaches the handlers only at the node's own term (Step's preamble)
+//@   requires #same-term [C14] m.GetType() == pb.MsgApp || m.GetType() == pb.MsgHeartbeat || m.GetType() == pb.MsgSnap ==> m.GetTerm() == r.Term
+//@   requires #member [C14] candidate_member(r)
+//@   requires #term-not-behind-log [C03 C14] term_ge_log(r) && (r.state == StateCandidate ==> r.Term >= 1)
+//@   ensures #reads-kept [C11] old(reads_wf(r)) ==> reads_wf(r)
+//@   ensures #prop-dropped [C20] old(m.GetType()) == pb.MsgProp ==> result == ErrProposalDropped && node_unchanged(r)
+//@   ensures #steps-down-for-leader [C02 C04] old(m.GetType() == pb.MsgApp || m.GetType() == pb.MsgHeartbeat || m.GetType() == pb.MsgSnap) ==> r.state == StateFollower
+//@        && r.lead == old(m.GetFrom()) && r.Term == old(r.Term) && r.Vote == old(r.Vote)
+//@   ensures #leader-only-on-won [C02] r.state == StateLeader ==> old(r.state) == StateCandidate && old(m.GetType()) == pb.MsgVoteResp
+//@        && r.Term == old(r.Term) && r.Vote == old(r.Vote)
+//@   ensures #term-only-up-on-prevote-won [C17] r.Term != old(r.Term) ==> old(r.state) == StatePreCandidate && old(m.GetType()) == pb.MsgPreVoteResp
+//@        && r.Term == old(r.Term) + 1 && r.state == StateCandidate && r.Vote == r.id
+//@   ensures #ignored [C17] old(m.GetType()) != pb.MsgProp && old(m.GetType()) != pb.MsgApp && old(m.GetType()) != pb.MsgHeartbeat && old(m.GetType()) != pb.MsgSnap
+//@        && old(m.GetType()) != (old(r.state) == StatePreCandidate ? pb.MsgPreVoteResp : pb.MsgVoteResp) ==> node_unchanged(r) && result == nil
+//@   ensures #commit-monotone [C07] r.raftLog.committed >= old(r.raftLog.committed)
+//@   ensures #wf wf_raft(r) && hs_monotone(r) && typestate(r) && (r.state == StateLeader ==> wf_leader(r))
+
+//@ -- ------------------------------------------------------------------------------------------
+//@ -- raft.go: leader-side helpers
+
+//@ pred leader_kept(r *raft) := raft_kept_but_msgs(r) && r.raftLog.committed == old(r.raftLog.committed) && log_last(r.raftLog) == old(log_last(r.raftLog)) && matches_kept(r)
+
+//@ func raft.raft.sendTimeoutNow [C17 C05]
+//@   frame raftpb.Message:
+//@   frame elems *raftpb.Message: r.msgs, r.msgsAfterAppend
+//@   requires wf_raft(r)
+//@   requires #not-self [C14] to != r.id
+//@   ensures #reads-kept [C11] old(reads_wf(r)) ==> reads_wf(r)
+//@   ensures #one-message [C17] len(r.msgs) == old(len(r.msgs)) + 1 && lastMsg(r).GetType() == pb.MsgTimeoutNow && lastMsg(r).GetTo() == to && r.msgsAfterAppend == old(r.msgsAfterAppend)
+//@   ensures #rest leader_kept(r)
+//@   ensures #wf wf_raft(r) && hs_monotone(r)
+
+//@ func raft.raft.bcastHeartbeatWithCtx [C06 C05 C11 C19]
+//@   frame raftpb.Message:
+//@   frame elems *raftpb.Message: r.msgs, r.msgsAfterAppend
+//@   requires wf_raft(r) && r.state == StateLeader
+//@   reveal trk_distinct, wf_trk
+//@   visit 1 invariant #state wf_raft(r) && raft_kept_but_msgs(r) && r.msgsAfterAppend == old(r.msgsAfterAppend) && r.raftLog.committed == old(r.raftLog.committed)
+//@        && len(r.msgs) >= old(len(r.msgs)) && log_last(r.raftLog) == old(log_last(r.raftLog)) && r.readOnly == old(r.readOnly) && r.readStates == old(r.readStates)
+//@   visit 1 invariant #matches r.trk.Progress == old(r.trk.Progress) && (forall id uint64 :: has(r.trk.Progress, id) ==> r.trk.Progress[id].Match == old(r.trk.Progress[id].Match)
+//@        && r.trk.Progress[id].Next == old(r.trk.Progress[id].Next))
+//@   visit 1 invariant #outbox-frame frameexcept("E$*raftpb.Message", old(r.msgs), old(r.msgsAfterAppend)) && frameexcept("F$raftpb.Message")
+//@   ensures #reads-kept [C11] old(reads_wf(r)) ==> reads_wf(r)
+//@   ensures #deferred-untouched [C05] r.msgsAfterAppend == old(r.msgsAfterAppend) && len(r.msgs) >= old(len(r.msgs))
+//@   ensures #cursors-kept [C06] r.trk.Progress == old(r.trk.Progress) && (forall id uint64 :: has(r.trk.Progress, id) ==> r.trk.Progress[id].Match == old(r.trk.Progress[id].Match)
+//@        && r.trk.Progress[id].Next == old(r.trk.Progress[id].Next))
+//@   ensures #rest raft_kept_but_msgs(r) && r.raftLog.committed == old(r.raftLog.committed) && log_last(r.raftLog) == old(log_last(r.raftLog)) && r.readOnly == old(r.readOnly) && r.readStates == old(r.readStates)
+//@   ensures #wf wf_raft(r) && hs_monotone(r)
+
+//@ func raft.raft.bcastHeartbeat [C06 C05 C11]
+//@   frame raftpb.Message:
+//@   frame elems *raftpb.Message: r.msgs, r.msgsAfterAppend
+//@   requires wf_raft(r) && r.state == StateLeader
+//@   ensures #reads-kept [C11] old(reads_wf(r)) ==> reads_wf(r)
+//@   ensures #deferred-untouched [C05] r.msgsAfterAppend == old(r.msgsAfterAppend) && len(r.msgs) >= old(len(r.msgs))
+//@   ensures #cursors-kept [C06] r.trk.Progress == old(r.trk.Progress) && (forall id uint64 :: has(r.trk.Progress, id) ==> r.trk.Progress[id].Match == old(r.trk.Progress[id].Match)
+//@        && r.trk.Progress[id].Next == old(r.trk.Progress[id].Next))
+//@   ensures #rest raft_kept_but_msgs(r) && r.raftLog.committed == old(r.raftLog.committed) && log_last(r.raftLog) == old(log_last(r.raftLog)) && r.readOnly == old(r.readOnly) && r.readStates == old(r.readStates)
+//@   ensures #wf wf_raft(r) && hs_monotone(r)
+
+//@ -- a read request carries its context in Entries[0] (RawNode.ReadIndex builds it so)
+//@ pred readreq_wf(m *pb.Message) := m != nil && len(m.Entries) >= 1
+
+//@ func raft.raft.responseToReadIndexReq [C11]
+//@   frame raftpb.Message:
+//@   requires wf_raft(r) && req != nil
+//@   requires #has-entry [C14] readreq_wf(req)
+//@   frame raft.raft: r
+//@   ensures #local [C11] old(req.GetFrom() == 0 || req.GetFrom() == r.id) ==> result.GetTo() == 0 && len(r.readStates) == old(len(r.readStates)) + 1
+//@        && r.readStates[old(len(r.readStates))].Index == readIndex
+//@   ensures #remote [C11] old(req.GetFrom() != 0 && req.GetFrom() != r.id) ==> result.GetType() == pb.MsgReadIndexResp && result.GetTo() == old(req.GetFrom())
+//@        && result.GetIndex() == readIndex && result.Entries == old(req.Entries) && r.readStates == old(r.readStates)
+//@   ensures #fresh result != nil && fresh(result) && result.GetTerm() == 0
+//@   ensures #rest raft_kept_but_msgs(r) && r.msgs == old(r.msgs) && r.msgsAfterAppend == old(r.msgsAfterAppend) && r.readOnly == old(r.readOnly) && r.raftLog == old(r.raftLog)
+//@        && r.pendingReadIndexMessages == old(r.pendingReadIndexMessages)
+//@   ensures #wf wf_raft(r) && hs_monotone(r)
+
+//@ pred pending_reads_wf(r *raft) := forall p int :: r.pendingReadIndexMessages.off <= p && p < r.pendingReadIndexMessages.off + len(r.pendingReadIndexMessages)
+//@     ==> readreq_wf(elem(r.pendingReadIndexMessages, p))
+
+//@ -- ReadOnlySafe: the request is queued at the current commit index and is only answered after a heartbeat quorum (C11); the
+//@ -- leader's own acknowledgement is recorded; nothing is released here. LeaseBased: answered at once at the commit index.
+//@ func raft.sendMsgReadIndexResponse [C11 C05]
+//@   frame raftpb.Message:
+//@   frame elems *raftpb.Message: r.msgs, r.msgsAfterAppend
+//@   requires wf_raft(r) && r.state == StateLeader
+//@   requires #has-entry [C14] readreq_wf(m)
+//@   requires #a-arith r.readOnly.confirmedReads + len(r.readOnly.unconfirmedReads) + 1 < 4611686018427387904
+//@   reveal wf_readOnly
+//@   ensures #reads-wf-pending old(reads_wf(r)) ==> pending_reads_wf(r)
+//@   ensures #reads-wf old(reads_wf(r)) ==> reads_wf(r)
+//@   ensures #safe-queued [C11] old(r.readOnly.option) == ReadOnlySafe ==> len(r.readOnly.unconfirmedReads) == old(len(r.readOnly.unconfirmedReads)) + 1
+//@        && r.readOnly.unconfirmedReads[old(len(r.readOnly.unconfirmedReads))].req == m && r.readOnly.unconfirmedReads[old(len(r.readOnly.unconfirmedReads))].index == r.raftLog.committed
+//@        && r.readOnly.confirmedReads == old(r.readOnly.confirmedReads) && r.readStates == old(r.readStates)
+//@   ensures #lease-answered-at-commit [C11] old(r.readOnly.option) == ReadOnlyLeaseBased ==> (old(m.GetFrom() == 0 || m.GetFrom() == r.id) ?
+//@        len(r.readStates) == old(len(r.readStates)) + 1 && r.readStates[old(len(r.readStates))].Index == r.raftLog.committed && r.msgs == old(r.msgs)
+//@      : len(r.msgs) == old(len(r.msgs)) + 1 && lastMsg(r).GetType() == pb.MsgReadIndexResp && lastMsg(r).GetIndex() == r.raftLog.committed && lastMsg(r).GetTo() == old(m.GetFrom()))
+//@   ensures #queue-bounded [C11] r.readOnly.confirmedReads == old(r.readOnly.confirmedReads) && len(r.readOnly.unconfirmedReads) >= old(len(r.readOnly.unconfirmedReads))
+//@        && len(r.readOnly.unconfirmedReads) <= old(len(r.readOnly.unconfirmedReads)) + 1
+//@   ensures #deferred-untouched [C05] r.msgsAfterAppend == old(r.msgsAfterAppend) && len(r.msgs) >= old(len(r.msgs))
+//@   ensures #rest raft_kept_but_msgs(r) && r.raftLog.committed == old(r.raftLog.committed) && log_last(r.raftLog) == old(log_last(r.raftLog)) && r.readOnly == old(r.readOnly)
+//@        && r.pendingReadIndexMessages == old(r.pendingReadIndexMessages) && r.trk.Progress == old(r.trk.Progress)
+//@        && (forall id uint64 :: has(r.trk.Progress, id) ==> r.trk.Progress[id].Match == old(r.trk.Progress[id].Match) && r.trk.Progress[id].Next == old(r.trk.Progress[id].Next))
+//@   ensures #wf wf_raft(r) && hs_monotone(r)
+
+//@ func raft.releasePendingReadIndexMessages [C11 C05]
+//@   frame raftpb.Message:
+//@   frame elems *raftpb.Message: r.msgs, r.msgsAfterAppend
+//@   requires wf_raft(r) && r.state == StateLeader
+//@   requires #pending-wf [C14] reads_wf(r)
+//@   requires #a-arith r.readOnly.confirmedReads + len(r.readOnly.unconfirmedReads) + len(r.pendingReadIndexMessages) < 4611686018427387904
+//@   reveal wf_readOnly
+//@   ensures #only-after-own-term-commit [C11] old(len(r.pendingReadIndexMessages) > 0 && !r.committedEntryInCurrentTerm()) ==> node_unchanged(r) && r.pendingReadIndexMessages == old(r.pendingReadIndexMessages)
+//@        && r.readOnly == old(r.readOnly) && len(r.readOnly.unconfirmedReads) == old(len(r.readOnly.unconfirmedReads)) && r.readStates == old(r.readStates)
+//@   ensures #drained [C11] old(len(r.pendingReadIndexMessages) == 0 || r.committedEntryInCurrentTerm()) ==> len(r.pendingReadIndexMessages) == 0
+//@   ensures #deferred-untouched [C05] r.msgsAfterAppend == old(r.msgsAfterAppend) && len(r.msgs) >= old(len(r.msgs))
+//@   ensures #rest raft_kept_but_msgs(r) && r.raftLog.committed == old(r.raftLog.committed) && log_last(r.raftLog) == old(log_last(r.raftLog)) && r.readOnly == old(r.readOnly)
+//@        && r.trk.Progress == old(r.trk.Progress)
+//@        && (forall id uint64 :: has(r.trk.Progress, id) ==> r.trk.Progress[id].Match == old(r.trk.Progress[id].Match) && r.trk.Progress[id].Next == old(r.trk.Progress[id].Next))
+//@   ensures #wf wf_raft(r) && hs_monotone(r) && reads_wf(r)
+//@   loop 1 invariant #reads reads_wf(r)
+//@   loop 1 invariant #state 0 <= iter && iter <= len(msgs) && wf_raft(r) && r.state == StateLeader && len(r.pendingReadIndexMessages) == 0 && raft_kept_but_msgs(r)
+//@        && r.msgsAfterAppend == old(r.msgsAfterAppend) && len(r.msgs) >= old(len(r.msgs)) && r.raftLog.committed == old(r.raftLog.committed)
+//@        && log_last(r.raftLog) == old(log_last(r.raftLog)) && r.readOnly == old(r.readOnly) && r.trk.Progress == old(r.trk.Progress)
+//@        && r.readOnly.confirmedReads + len(r.readOnly.unconfirmedReads) + (len(msgs) - iter) < 4611686018427387904
+//@   loop 1 invariant #outbox-frame frameexcept("E$*raftpb.Message", old(r.msgs), old(r.msgsAfterAppend)) && frameexcept("F$raftpb.Message")
+//@   loop 1 invariant #msgs-apart (msgs.arr != r.msgs.arr && msgs.arr != r.msgsAfterAppend.arr) || len(msgs) == 0
+//@   loop 1 invariant #msgs-wf msgs == old(r.pendingReadIndexMessages) && (forall p int :: msgs.off <= p && p < msgs.off + len(msgs) ==> readreq_wf(elem(msgs, p)))
+//@   loop 1 invariant #cursors forall id uint64 :: has(r.trk.Progress, id) ==> r.trk.Progress[id].Match == old(r.trk.Progress[id].Match) && r.trk.Progress[id].Next == old(r.trk.Progress[id].Next)
+
+//@ -- library and helper functions used by the proposal path (assumed contracts, listed in the evidence)
+//@ -- E-app-conf: the data of a conf-change entry handed to Step unmarshals (ProposeConfChange marshals it itself)
+//@ ufun dataOK(arr int, off int, n int) bool
+//@ func proto.Unmarshal
+//@   trusted
+//@   modifies F$raftpb.ConfChange, F$raftpb.ConfChangeV2, alloc F$raftpb.ConfChangeSingle, alloc C$uint64, alloc C$raftpb.ConfChangeType, alloc C$raftpb.ConfChangeTransition, alloc E$uint8, alloc E$*raftpb.ConfChangeSingle
+//@   ensures dataOK(b.arr, b.off, len(b)) ==> result == nil
+//@ func raftpb.ConfChangeI.AsV2
+//@   modifies alloc F$raftpb.ConfChangeV2, alloc F$raftpb.ConfChangeSingle, alloc C$uint64, alloc C$raftpb.ConfChangeType, alloc E$*raftpb.ConfChangeSingle
+//@   ensures result != nil
+//@ func raft.DescribeConfChange
+//@   trusted
+//@   pure
+
+//@ pred isConfEntry(e *pb.Entry) := e.GetType() == pb.EntryConfChange || e.GetType() == pb.EntryConfChangeV2
+//@ pred reads_wf(r *raft) := pending_reads_wf(r) && (forall p int :: r.readOnly.unconfirmedReads.off <= p && p < r.readOnly.unconfirmedReads.off + len(r.readOnly.unconfirmedReads)
+//@     ==> readreq_wf(elem(r.readOnly.unconfirmedReads, p).req))
+
+//@ -- what this library's own senders and the RawNode API guarantee about messages stepped on a leader (E-msg-wf, E-app-conf, E-readack)
+//@ pred prop_wf(r *raft, m *pb.Message) := len(m.Entries) > 0 && (forall p int :: m.Entries.off <= p && p < m.Entries.off + len(m.Entries) ==> elem(m.Entries, p) != nil
+//@        && (isConfEntry(elem(m.Entries, p)) ==> dataOK(elem(m.Entries, p).Data.arr, elem(m.Entries, p).Data.off, len(elem(m.Entries, p).Data))))
+//@     && r.uncommittedSize < 4611686018427387904 && log_last(r.raftLog) + len(m.Entries) < 4611686018427387904
+//@     && m.Entries.arr != r.raftLog.unstable.entries.arr
+//@ pred appresp_wf(r *raft, m *pb.Message) := (m.GetReject() ==> m.GetFrom() != r.id && m.GetRejectHint() < 4611686018427387904) && (!m.GetReject() ==> m.GetIndex() <= log_last(r.raftLog))
+//@ pred hbresp_wf(r *raft, m *pb.Message) := m.GetFrom() != r.id && (len(m.Context) != 0 ==> len(m.Context) >= 8
+//@        && le64(m.Context) <= r.readOnly.confirmedReads + len(r.readOnly.unconfirmedReads)) && (len(r.trk.Voters[0]) > 0 || len(r.trk.Voters[1]) > 0)
+//@ pred leader_msg_in_wf(r *raft, m *pb.Message) := (m.GetType() == pb.MsgProp ==> prop_wf(r, m)) && (m.GetType() == pb.MsgReadIndex ==> readreq_wf(m))
+//@     && (m.GetType() == pb.MsgAppResp ==> appresp_wf(r, m)) && (m.GetType() == pb.MsgHeartbeatResp ==> hbresp_wf(r, m))
+
+//@ func raft.stepLeader [C06 C10 C11 C16 C17 C20 C05 C07 C14]
+//@   requires wf_raft(r) && typestate(r) && m != nil
+//@   requires #role r.state == StateLeader
+//@   requires #leader-inv [C14] wf_leader(r) && term_ge_log(r) && r.Term >= 1 && reads_wf(r) && r.trk.MaxInflight >= 1
+//@   requires #a-arith log_last(r.raftLog) + 1 < 4611686018427387904
+//@        && r.readOnly.confirmedReads + len(r.readOnly.unconfirmedReads) + len(r.pendingReadIndexMessages) + 1 < 4611686018427387904
+//@   requires #msg-wf [C14] leader_msg_in_wf(r, m)
+//@   reveal wf_trk, trk_distinct, wf_readOnly
+//@   case m.GetType() == pb.MsgProp
+//@   case m.GetType() == pb.MsgAppResp && m.GetReject()
+//@   case m.GetType() == pb.MsgAppResp && !m.GetReject()
+//@   case m.GetType() == pb.MsgHeartbeatResp
+//@   case m.GetType() == pb.MsgCheckQuorum || m.GetType() == pb.MsgBeat || m.GetType() == pb.MsgReadIndex || m.GetType() == pb.MsgForgetLeader
+//@   case m.GetType() == pb.MsgSnapStatus || m.GetType() == pb.MsgUnreachable || m.GetType() == pb.MsgTransferLeader
+//@   case m.GetType() != pb.MsgProp && m.GetType() != pb.MsgAppResp && m.GetType() != pb.MsgHeartbeatResp && m.GetType() != pb.MsgCheckQuorum && m.GetType() != pb.MsgBeat
+//@        && m.GetType() != pb.MsgReadIndex && m.GetType() != pb.MsgForgetLeader && m.GetType() != pb.MsgSnapStatus && m.GetType() != pb.MsgUnreachable && m.GetType() != pb.MsgTransferLeader
+//@   loop 1 invariant #range 0 <= iter && iter <= len(m.Entries) && m.Entries == old(m.Entries)
+//@   loop 1 invariant #k1a r.Term == old(r.Term) && r.Vote == old(r.Vote) && r.state == old(r.state) && r.lead == old(r.lead) && r.id == old(r.id)
+//@   loop 1 invariant #k1b r.step == old(r.step) && r.tick == old(r.tick)
+//@   loop 1 invariant #k1c r.electionElapsed == old(r.electionElapsed) && r.heartbeatElapsed == old(r.heartbeatElapsed)
+//@   loop 1 invariant #k1d (r.msgs.arr == old(r.msgs.arr) || fresh(r.msgs.arr)) && (r.msgsAfterAppend.arr == old(r.msgsAfterAppend.arr) || fresh(r.msgsAfterAppend.arr))
+//@   loop 1 invariant #k2 r.msgs == old(r.msgs) && r.msgsAfterAppend == old(r.msgsAfterAppend)
+//@   loop 1 invariant #k3 r.uncommittedSize == old(r.uncommittedSize) && r.leadTransferee == old(r.leadTransferee)
+//@   loop 1 invariant #k4 r.trk.Progress == old(r.trk.Progress)
+//@   loop 1 invariant #k5 m.Entries.arr != r.raftLog.unstable.entries.arr
+//@   loop 1 invariant #log-kept log_cursors_kept(r.raftLog) && log_last(r.raftLog) == old(log_last(r.raftLog)) && log_last(r.raftLog) + len(m.Entries) < 4611686018427387904
+//@   loop 1 invariant #wf wf_raft(r)
+//@   loop 1 invariant #inlog wf_leader(r)
+//@   loop 1 invariant #termlog term_ge_log(r)
+//@   loop 1 invariant #reads reads_wf(r)
+//@   loop 1 invariant #entries-nonnil forall p int :: m.Entries.off <= p && p < m.Entries.off + len(m.Entries) ==> elem(m.Entries, p) != nil
+//@        && (p >= m.Entries.off + iter && isConfEntry(elem(m.Entries, p)) ==> dataOK(elem(m.Entries, p).Data.arr, elem(m.Entries, p).Data.off, len(elem(m.Entries, p).Data)))
+//@   loop 1 invariant #untouched-tail forall p int :: {elem(m.Entries, p)} m.Entries.off + iter <= p && p < m.Entries.off + len(m.Entries) ==> elem(m.Entries, p) == oldelem(m.Entries, p)
+//@   loop 1 invariant #types-kept allocframe("F$raftpb.Entry", "C$raftpb.EntryType")
+//@   loop 1 invariant #pending-conf [C10] r.pendingConfIndex == old(r.pendingConfIndex)
+//@        || (log_last(r.raftLog) + 1 <= r.pendingConfIndex && r.pendingConfIndex < log_last(r.raftLog) + 1 + iter
+//@            && isConfEntry(oldelem(m.Entries, m.Entries.off + (r.pendingConfIndex - log_last(r.raftLog) - 1)))
+//@            && elem(m.Entries, m.Entries.off + (r.pendingConfIndex - log_last(r.raftLog) - 1)) == oldelem(m.Entries, m.Entries.off + (r.pendingConfIndex - log_last(r.raftLog) - 1)))
+//@   loop 1 invariant #conf-gate [C10] r.pendingConfIndex != old(r.pendingConfIndex) ==> r.disableConfChangeValidation || old(r.pendingConfIndex) <= r.raftLog.applied
+//@   visit 1 invariant #state wf_raft(r) && typestate(r) && hs_monotone(r) && r.Term == old(r.Term) && r.msgs == old(r.msgs) && r.msgsAfterAppend == old(r.msgsAfterAppend)
+//@        && r.raftLog.committed == old(r.raftLog.committed) && r.trk.Progress == old(r.trk.Progress) && r.id == old(r.id)
+//@        && (old(majActive(&r.trk, r.trk.Voters[0]) && majActive(&r.trk, r.trk.Voters[1])) ? r.state == StateLeader && wf_leader(r) : r.state == StateFollower && r.lead == 0)
+//@   visit 1 invariant #inactive [C17] forall id uint64 :: seen(id) && id != r.id ==> !r.trk.Progress[id].RecentActive
+//@   loop 2 invariant #drain-wf wf_raft(r) && r.state == StateLeader
+//@   loop 2 invariant #drain-inlog wf_leader(r)
+//@   loop 2 invariant #drain-kept raft_kept_but_msgs(r) && r.msgsAfterAppend == old(r.msgsAfterAppend) && len(r.msgs) >= old(len(r.msgs))
+//@        && r.trk.Progress == old(r.trk.Progress) && log_last(r.raftLog) == old(log_last(r.raftLog)) && r.raftLog.committed >= old(r.raftLog.committed) && r.leadTransferee == old(r.leadTransferee)
+//@   loop 2 invariant #drain-others forall id uint64 :: has(r.trk.Progress, id) && id != m.GetFrom() ==> r.trk.Progress[id].Match == old(r.trk.Progress[id].Match)
+//@   loop 2 invariant #drain-from r.trk.Progress[m.GetFrom()].Match == max(old(r.trk.Progress[m.GetFrom()].Match), m.GetIndex()) && has(r.trk.Progress, m.GetFrom()) && m.GetFrom() != r.id
+//@   loop 2 invariant #drain-msg m.GetFrom() == old(m.GetFrom()) && m.GetIndex() == old(m.GetIndex()) && m.GetType() == old(m.GetType()) && m.GetReject() == old(m.GetReject())
+//@   loop 2 invariant #drain-reads reads_wf(r) && r.pendingConfIndex == old(r.pendingConfIndex)
+//@   loop 3 invariant #ans-range 0 <= iter && iter <= len(rss)
+//@   loop 3 invariant #ans-wf wf_raft(r) && r.state == StateLeader
+//@   loop 3 invariant #ans-inlog wf_leader(r)
+//@   loop 3 invariant #ans-kept raft_kept_but_msgs(r) && r.msgsAfterAppend == old(r.msgsAfterAppend)
+//@        && len(r.msgs) >= old(len(r.msgs)) && matches_kept(r) && log_last(r.raftLog) == old(log_last(r.raftLog)) && r.raftLog.committed == old(r.raftLog.committed)
+//@   loop 3 invariant #ans-reqs forall p int :: rss.off <= p && p < rss.off + len(rss) ==> elem(rss, p) != nil && readreq_wf(elem(rss, p).req)
+//@   loop 3 invariant #ans-reads reads_wf(r)
+//@   ensures #check-quorum [C17] old(m.GetType()) == pb.MsgCheckQuorum ==> r.Term == old(r.Term)
+//@        && (old(majActive(&r.trk, r.trk.Voters[0]) && majActive(&r.trk, r.trk.Voters[1])) ? r.state == StateLeader : r.state == StateFollower && r.lead == 0)
+//@        && (forall id uint64 :: has(r.trk.Progress, id) && id != r.id ==> !r.trk.Progress[id].RecentActive)
+//@   ensures #deferred-untouched [C05] old(m.GetType()) != pb.MsgProp ==> r.msgsAfterAppend == old(r.msgsAfterAppend)
+//@   ensures #clock-kept [C17] old(m.GetType() == pb.MsgBeat || m.GetType() == pb.MsgCheckQuorum) && r.state == StateLeader ==> r.electionElapsed == old(r.electionElapsed)
+//@        && r.heartbeatElapsed == old(r.heartbeatElapsed) && r.leadTransferee == old(r.leadTransferee)
+//@   ensures #snap-status-keeps-match [C06] old(m.GetType() == pb.MsgSnapStatus || m.GetType() == pb.MsgUnreachable || m.GetType() == pb.MsgTransferLeader || m.GetType() == pb.MsgHeartbeatResp
+//@        || m.GetType() == pb.MsgBeat || m.GetType() == pb.MsgReadIndex || m.GetType() == pb.MsgForgetLeader || (m.GetType() == pb.MsgAppResp && m.GetReject())) ==> matches_kept(r)
+//@   ensures #match-only-up [C06] old(m.GetType() == pb.MsgAppResp && !m.GetReject() && has(r.trk.Progress, m.GetFrom())) ==> r.trk.Progress == old(r.trk.Progress)
+//@        && r.trk.Progress[old(m.GetFrom())].Match == max(old(r.trk.Progress[m.GetFrom()].Match), old(m.GetIndex()))
+//@        && (forall id uint64 :: has(r.trk.Progress, id) && id != old(m.GetFrom()) ==> r.trk.Progress[id].Match == old(r.trk.Progress[id].Match))
+//@   -- the commit index moves only through maybeCommit (whose contract makes it quorum-backed and own-term), and only on a successful append acknowledgement
+//@   ensures #commit-only-on-ack [C06] r.raftLog.committed != old(r.raftLog.committed) ==> r.raftLog.committed > old(r.raftLog.committed)
+//@        && old(m.GetType() == pb.MsgAppResp && !m.GetReject()) && r.raftLog.committed <= log_last(r.raftLog)
+//@   ensures #term-kept [C07] r.Term == old(r.Term) && r.Vote == old(r.Vote) && (r.state == StateLeader || old(m.GetType()) == pb.MsgCheckQuorum)
+//@   ensures #prop-dropped [C20] old(m.GetType() == pb.MsgProp && (!has(r.trk.Progress, r.id) || r.leadTransferee != 0)) ==> result == ErrProposalDropped && node_unchanged(r)
+//@        && r.pendingConfIndex == old(r.pendingConfIndex) && r.uncommittedSize == old(r.uncommittedSize)
+//@   ensures #prop-result [C20 C16] old(m.GetType()) == pb.MsgProp ==> (result == nil ? log_last(r.raftLog) == old(log_last(r.raftLog)) + len(m.Entries)
+//@        : result == ErrProposalDropped && log_last(r.raftLog) == old(log_last(r.raftLog)) && r.msgs == old(r.msgs) && r.msgsAfterAppend == old(r.msgsAfterAppend) && r.uncommittedSize == old(r.uncommittedSize))
+//@   ensures #conf-gate [C10] old(m.GetType()) == pb.MsgProp && r.pendingConfIndex != old(r.pendingConfIndex) ==> (r.disableConfChangeValidation || old(r.pendingConfIndex) <= r.raftLog.applied)
+//@   ensures #conf-index [C10] old(m.GetType()) == pb.MsgProp && r.pendingConfIndex != old(r.pendingConfIndex) ==>
+//@        old(log_last(r.raftLog)) + 1 <= r.pendingConfIndex && r.pendingConfIndex < old(log_last(r.raftLog)) + 1 + old(len(m.Entries))
+//@   ensures #prop-keeps-cursors [C08 C20] old(m.GetType()) == pb.MsgProp ==> log_cursors_kept(r.raftLog) && r.state == StateLeader
+//@        && (log_last(r.raftLog) == old(log_last(r.raftLog)) ==> r.uncommittedSize == old(r.uncommittedSize))
+//@   ensures #conf-only-on-prop [C10] old(m.GetType()) != pb.MsgProp && r.state == StateLeader ==> r.pendingConfIndex == old(r.pendingConfIndex)
+//@   ensures #read-not-before-own-term-commit [C11] old(m.GetType() == pb.MsgReadIndex && !(len(r.trk.Voters[0]) == 1 && len(r.trk.Voters[1]) == 0) && !r.committedEntryInCurrentTerm()) ==>
+//@        len(r.pendingReadIndexMessages) == old(len(r.pendingReadIndexMessages)) + 1 && r.pendingReadIndexMessages[old(len(r.pendingReadIndexMessages))] == m
+//@        && r.msgs == old(r.msgs) && r.readStates == old(r.readStates) && r.readOnly == old(r.readOnly) && len(r.readOnly.unconfirmedReads) == old(len(r.readOnly.unconfirmedReads))
+//@   ensures #transfer [C17] old(m.GetType() == pb.MsgTransferLeader) && r.leadTransferee != old(r.leadTransferee) && r.leadTransferee != 0 ==> r.leadTransferee == old(m.GetFrom()) && r.electionElapsed == 0
+//@        && old(has(r.trk.Progress, m.GetFrom())) && !r.trk.Progress[r.leadTransferee].IsLearner
+//@   ensures #wf wf_raft(r)
+//@   ensures #hs [C07] hs_monotone(r)
+//@   ensures #typestate typestate(r)
+//@   ensures #leader-inv-kept r.state == StateLeader ==> wf_leader(r)
+//@   ensures #reads-wf-kept reads_wf(r)
+
+//@ -- ------------------------------------------------------------------------------------------
+//@ -- raft.go: acknowledgements from the local storage threads, and Step itself
+
+//@ -- T-lib (protobuf): empty input decodes (to the zero message)
+//@ axiom #dataOK-empty forall a int, o int :: dataOK(a, o, 0)
+
+//@ -- ASSUMED (listed in the evidence): the snapshot acknowledgement path. Between stableSnapTo and appliedTo the log invariant
+//@ -- is suspended (applied lags the installed snapshot), which the contracts built so far do not express.
+//@ func raft.raft.appliedSnap [C09 C08]
+//@   trusted
+//@   requires wf_raft(r) && snap != nil
+//@   ensures #reads-kept [C11] old(reads_wf(r)) ==> reads_wf(r)
+//@   ensures #snapshot-cleared [C09] old(r.raftLog.unstable.snapshot != nil && snapIndex(r.raftLog.unstable.snapshot) == snapIndex(snap)) ==> r.raftLog.unstable.snapshot == nil
+//@   ensures #applied-monotone [C08] r.raftLog.applied == max(old(r.raftLog.applied), snapIndex(snap)) && r.raftLog.committed == old(r.raftLog.committed)
+//@   ensures #rest r.Term == old(r.Term) && r.Vote == old(r.Vote) && r.raftLog.unstable.entries == old(r.raftLog.unstable.entries) && r.raftLog.unstable.offset == old(r.raftLog.unstable.offset)
+//@        && raft_kept_but_msgs(r) && r.msgs == old(r.msgs) && r.msgsAfterAppend == old(r.msgsAfterAppend) && log_last(r.raftLog) == old(log_last(r.raftLog)) && r.uncommittedSize == old(r.uncommittedSize)
+//@        && (old(wf_leader(r)) ==> wf_leader(r))
+//@   ensures #wf wf_raft(r) && hs_monotone(r) && typestate(r)
+
+//@ pred node_inv(r *raft) := wf_raft(r) && typestate(r) && r.trk.MaxInflight >= 1 && reads_wf(r)
+//@     && (r.state == StateLeader ==> wf_leader(r))
+//@ -- invariants the contracts rely on but do not yet re-establish (listed as assumptions of Step): the log never runs ahead of
+//@ -- the term, a campaigning node is a member, a leader has a term
+//@ pred node_inv_assumed(r *raft) := term_ge_log(r) && candidate_member(r) && (r.state == StateLeader || r.state == StateCandidate ==> r.Term >= 1)
+//@     && r.Term + 1 < 9223372036854775808 && log_last(r.raftLog) + 1 < 4611686018427387904 && r.uncommittedSize < 4611686018427387904
+//@     && (r.Term == 0 ==> log_last(r.raftLog) == 0)
+//@     && r.readOnly.confirmedReads + len(r.readOnly.unconfirmedReads) + len(r.pendingReadIndexMessages) + 1 < 4611686018427387904
+
+//@ pred storage_ack_wf(r *raft, m *pb.Message) := (m.GetType() == pb.MsgStorageApplyResp ==> m.GetTerm() == 0) && (m.GetType() == pb.MsgStorageAppendResp ==> m.GetTerm() <= r.Term) &&
+//@     (m.GetType() == pb.MsgStorageApplyResp && len(m.Entries) > 0 ==> m.Entries[len(m.Entries) - 1] != nil && eindex(m.Entries[len(m.Entries) - 1]) <= r.raftLog.committed)
+//@     && (m.GetType() == pb.MsgStorageAppendResp && m.GetIndex() != 0 ==> append_ack_wf(r.raftLog, m.GetIndex(), m.GetLogTerm()))
+//@ -- E-ready-contract: an acknowledgement that matches the unstable log is only delivered after those entries reached storage
+//@ pred append_ack_wf(l *raftLog, index uint64, term uint64) :=
+//@     ((index >= l.unstable.offset && index < l.unstable.offset + len(l.unstable.entries) && eterm(l.unstable.entries[index - l.unstable.offset]) == term && l.unstable.snapshot == nil) ==>
+//@        (st_last(l.storage) >= index && (index + 1 == l.unstable.offset + len(l.unstable.entries) ==> st_last(l.storage) == index) && st_term(l.storage, index) == term))
+//@     && (l.unstable.snapshot != nil ==> index < l.unstable.offset || !(index < l.unstable.offset + len(l.unstable.entries) && eterm(l.unstable.entries[index - l.unstable.offset]) == term))
+
+//@ pred step_msg_wf(r *raft, m *pb.Message) := leader_msg_wf(r, m) && m.GetTerm() + 1 < 9223372036854775808
+//@     && (isVoteReq(m.GetType()) ==> m.GetTerm() != 0)
+//@     && (fwd_type(m.GetType()) && r.state == StateFollower && r.lead != 0 ==> m.GetTerm() != r.Term)
+//@     && (r.state == StateLeader && (m.GetTerm() == 0 || m.GetTerm() == r.Term) ==> leader_msg_in_wf(r, m))
+//@     && storage_ack_wf(r, m)
+//@     && ((m.GetType() == pb.MsgApp || m.GetType() == pb.MsgHeartbeat || m.GetType() == pb.MsgSnap) ==> m.GetTerm() != 0)
+
+//@ spec inLease(r *raft) bool := r.checkQuorum && r.lead != 0 && r.electionElapsed < r.electionTimeout
+//@ pred isVoteReq(t pb.MessageType) := t == pb.MsgVote || t == pb.MsgPreVote
+//@ spec lastTerm(r *raft) uint64 := log_term(r.raftLog, log_last(r.raftLog))
+//@ pred candUpToDate(r *raft, m *pb.Message) := m.GetLogTerm() > lastTerm(r) || (m.GetLogTerm() == lastTerm(r) && m.GetIndex() >= log_last(r.raftLog))
+
+//@ func raft.raft.appliedTo [C08 C10 C14]
+//@   reveal wf_raftLog
+//@   requires node_inv(r) && node_inv_assumed(r)
+//@   requires #range [C14 C08] index <= r.raftLog.committed
+//@   ensures #applied-monotone [C08] r.raftLog.applied == max(old(r.raftLog.applied), index) && r.raftLog.applying == max(old(r.raftLog.applying), r.raftLog.applied)
+//@        && r.raftLog.committed == old(r.raftLog.committed)
+//@   ensures #auto-leave-only-leader [C10] log_last(r.raftLog) != old(log_last(r.raftLog)) ==> old(r.trk.AutoLeave && r.state == StateLeader) && r.raftLog.applied >= old(r.pendingConfIndex)
+//@        && log_last(r.raftLog) == old(log_last(r.raftLog)) + 1
+//@   ensures #rest r.Term == old(r.Term) && r.Vote == old(r.Vote) && r.state == old(r.state)
+//@   ensures #uncommitted-kept [C16] log_last(r.raftLog) == old(log_last(r.raftLog)) ==> r.uncommittedSize == old(r.uncommittedSize)
+//@   ensures #entries-untouched !old(r.trk.AutoLeave && r.state == StateLeader) ==> sameheap("E$*raftpb.Entry", "F$raftpb.Entry", "E$uint8", "F$raftpb.Message.Entries")
+//@        && log_last(r.raftLog) == old(log_last(r.raftLog))
+//@   ensures #wf node_inv(r) && hs_monotone(r)
+
+//@ func raft.raft.Step [C02 C04 C05 C06 C07 C10 C16 C17 C20 C14]
+//@   requires #m-nil-or-inv m != nil ==> node_inv(r) && node_inv_assumed(r)
+//@   requires #msg-wf [C14] m != nil ==> step_msg_wf(r, m)
+//@   case m == nil || m.GetTerm() == 0
+//@   case m != nil && m.GetTerm() != 0 && m.GetTerm() < r.Term
+//@   case m != nil && m.GetTerm() > r.Term
+//@   case m != nil && m.GetTerm() != 0 && m.GetTerm() == r.Term
+//@   ensures #nil-msg m == nil ==> result != nil
+//@   ensures #hs-monotone [C07] m != nil ==> hs_monotone(r)
+//@   ensures #in-lease-ignored [C17] m != nil && old(m.GetTerm() > r.Term && isVoteReq(m.GetType()) && inLease(r) && len(m.Context) != 16) ==> result == nil && node_unchanged(r)
+//@   ensures #prevote-changes-nothing [C17 C07] m != nil && old(m.GetType()) == pb.MsgPreVote ==> raft_kept_but_msgs(r) && r.msgs == old(r.msgs) && log_cursors_kept(r.raftLog)
+//@   ensures #stale-term-ignored [C07 C03] m != nil && old(m.GetTerm() != 0 && m.GetTerm() < r.Term) ==> result == nil && r.Term == old(r.Term) && r.Vote == old(r.Vote) && r.state == old(r.state)
+//@        && r.lead == old(r.lead) && r.raftLog.committed == old(r.raftLog.committed) && r.raftLog.unstable.entries == old(r.raftLog.unstable.entries) && r.raftLog.unstable.offset == old(r.raftLog.unstable.offset)
+//@        && r.msgs == old(r.msgs)
+//@   ensures #vote-needs-up-to-date-log [C02 C04] m != nil && old(m.GetType()) == pb.MsgVote && r.Vote == old(m.GetFrom()) && old(m.GetFrom()) != 0 && !(r.Term == old(r.Term) && r.Vote == old(r.Vote))
+//@        ==> old(candUpToDate(r, m))
+//@   ensures #vote-replies-deferred [C05] m != nil && old(isVoteReq(m.GetType())) ==> r.msgs == old(r.msgs)
+//@   ensures #term-rule [C07 C17] m != nil && r.Term != old(r.Term) ==> r.Term > old(r.Term)
+//@        && ((old(m.GetTerm() > r.Term) && old(m.GetType()) != pb.MsgPreVote && !(old(m.GetType()) == pb.MsgPreVoteResp && !old(m.GetReject()))
+//@             && (r.Term == old(m.GetTerm()) || (r.Term == old(m.GetTerm()) + 1 && r.state == StateCandidate && r.Vote == r.id)))
+//@            || (r.Term == old(r.Term) + 1 && r.state == StateCandidate && r.Vote == r.id))
+//@   ensures #apply-ack [C16 C08] m != nil && old(m.GetTerm() == 0 && m.GetType() == pb.MsgStorageApplyResp && len(m.Entries) > 0) ==>
+//@        old(r.trk.AutoLeave && r.state == StateLeader) ||
+//@        r.uncommittedSize == (old(sumpay(m.Entries, len(m.Entries))) > old(r.uncommittedSize) ? 0 : old(r.uncommittedSize) - old(sumpay(m.Entries, len(m.Entries))))
+//@   ensures #prop-keeps-hardstate [C20 C07 C08] m != nil && old(m.GetType()) == pb.MsgProp && old(m.GetTerm()) == 0 ==> r.Term == old(r.Term) && r.Vote == old(r.Vote) && r.state == old(r.state)
+//@        && log_cursors_kept(r.raftLog) && (log_last(r.raftLog) == old(log_last(r.raftLog)) || (old(r.state) == StateLeader && result == nil && log_last(r.raftLog) == old(log_last(r.raftLog)) + len(m.Entries)))
+//@        && (log_last(r.raftLog) == old(log_last(r.raftLog)) ==> r.uncommittedSize == old(r.uncommittedSize))
+//@   ensures #leader-clock-msgs [C17 C07] m != nil && old(m.GetTerm() == 0 && r.state == StateLeader && (m.GetType() == pb.MsgCheckQuorum || m.GetType() == pb.MsgBeat)) ==> r.Term == old(r.Term) && r.Vote == old(r.Vote)
+//@        && (r.state == StateLeader || (old(m.GetType()) == pb.MsgCheckQuorum && r.state == StateFollower && r.lead == 0))
+//@   ensures #wf m != nil ==> wf_raft(r)
+//@   ensures #typestate m != nil ==> typestate(r)
+//@   ensures #reads-wf [C11] m != nil ==> reads_wf(r)
+//@   ensures #leader-inv [C06] m != nil && r.state == StateLeader ==> wf_leader(r)
+
+//@ -- ------------------------------------------------------------------------------------------
+//@ -- raft.go: logical clock
+
+//@ func raft.raft.tickElection [C07 C17 C02]
+//@   requires node_inv(r) && node_inv_assumed(r)
+//@   requires #a-arith r.electionElapsed < 2147483648
+//@   requires #role r.state != StateLeader
+//@   ensures #hs [C07] hs_monotone(r)
+//@   ensures #no-campaign-before-timeout [C17] old(!(r.promotable() && r.electionElapsed + 1 >= r.randomizedElectionTimeout)) ==> r.Term == old(r.Term) && r.Vote == old(r.Vote) && r.state == old(r.state)
+//@        && r.electionElapsed == old(r.electionElapsed) + 1 && r.msgs == old(r.msgs) && r.msgsAfterAppend == old(r.msgsAfterAppend)
+//@   ensures #term-at-most-plus-one [C02 C07] r.Term == old(r.Term) || (r.Term == old(r.Term) + 1 && r.state == StateCandidate && r.Vote == r.id)
+//@   ensures #wf node_inv(r)
+
+//@ -- tickHeartbeat is not under contract yet: its second Step call needs the assumed node invariants (node_inv_assumed) re-established
+//@ -- by the first, which the Step contract does not provide.
